@@ -1,615 +1,460 @@
-(* Token-level read-back theorem (parser half) for core4 documents = core3 documents (Rt/BareWordParse.v) whose assignment / META
-   values may be
-     - lists whose items are themselves LISTS, nested to any depth below the parser's nesting limit, each level laid out inline
-       or multi-line (the layout of every list is chosen by the ARBITRARY function `ml`; Syn.Emitter.needs_multiline is one instance);
-     - lists whose items are INLINE-MAP items  K::v  (AST: VMap [(K, v)], exactly one pair) with v a scalar or a list (of scalars /
-       lists, no map inside).
-   How the AST and the parser represent inline maps: parse_list_item turns EVERY item `K::v` into a one-pair VMap [(K, v)]; the emitter
-   writes the pairs of a VMap item of a multi-line list on one line `K1::v1,K2::v2` WITHOUT brackets (and every list with a map or a
-   list among its items is multi-line).  Hence a multi-pair VMap item is read back as several one-pair items, an empty VMap item
-   vanishes, and a VMap in value position `K::[a::1]` is read back as a list of one-pair maps: none of them is in the fragment
-   (refuted in Rt/TokRound4Ex.v).
+(* Parser side of property C07 for the rewrite "multi-word bare value": receipts = rewrites.
 
-   Warnings: besides 5 duplicate_key and 9 pattern_autoquote the parser model really adds
-       6 deep_nesting       when a list is opened at bracket depth >= 5 (once per line), and
-       7 constructor_misuse when an inline-map key is one of REGEX ENUM TYPE PATTERN NEVER ALWAYS and its value is a QUOTED string
-                            -- which is what the emitter writes for its always-quote keys PATTERN and REGEX;
-   both are warnings only (the value is kept), so the advisory class of this file is {5, 6, 7, 9}.
-   A list opened at bracket depth >= 100 is an ERROR (E_MAX_NESTING_EXCEEDED): cval4 bounds the nesting by 99.
+   (a) What the parser model coalesces (Syn/Parser.v, parse_value, IDENTIFIER branch).  With t the IDENTIFIER token under the cursor:
+       1. if the NEXT token is an expression operator (FLOW SYNTHESIS AT CONCAT TENSION CONSTRAINT ALTERNATIVE), or an opening bracket
+          followed after its group by such an operator, the value is a FLOW EXPRESSION -- no coalescing;
+       2. an opening bracket right after t is an annotation / a separate bracket group (adjacency test) -- outside this file;
+       3. `:`IDENTIFIER continuations make a colon path -- outside this file;
+       4. scan_annotation looks ahead over the following VALUE tokens (IDENTIFIER NUMBER VERSION BOOLEAN NULL STRING VARIABLE): if the
+          text of t or of one of them contains `<` and ends with `>`, the unified accumulator annot_loop takes over (it may return a LIST);
+       5. otherwise word_loop gathers words: every VALUE token continues the value (its text is _token_to_str: the raw lexeme of a
+          number, true / false / null, a string WITH its quotes, the text of identifiers / versions / variables); a VALUE token followed by
+          an expression operator turns the whole into an expression (record context "expression_path"); a word followed by an opening
+          bracket goes to the adjacency test; the first NON-value token stops the loop;
+       6. if more than one word was gathered ONE record  mkW 1 line col (join " " words) [] words []  is pushed (subtype 1 =
+          multi_word_coalesce; line / col of t; wa = the joined words; wb = the context, empty for this branch; wparts = the words),
+          THEN trailing brackets are examined (a bracket group after the last word is appended to the value, NOT to the record);
+       7. the value is  VStr (join " " words).
+       Values led by a STRING / BOOLEAN / NULL / VERSION / NUMBER token coalesce through other branches with the contexts string_multiword,
+       boolean_multiword, null_multiword, version_multiword, number_identifier(_expression); they are not treated here.
 
-   Part A (this file, new): shapes, the fragment, the value reader pv_cval4 (induction on the nesting budget).
-   Part B: the loop / node / document lemmas of Rt/BareWordParse.v re-proved over the new value shapes (same proofs: the loops never
-   look inside a value). *)
+   (b) pv_multi: for word tokens w1 .. wn (n >= 2; w1 an IDENTIFIER; every word a VALUE token whose text carries no annotation suffix)
+       followed by a token that is neither a VALUE token nor an expression operator nor an opening bracket, parse_value returns
+       VStr (join " " texts) after consuming exactly the n words, and pushes exactly ONE record, mw_rec words w1.
+       pv_one_word_no_record / pv_quoted_no_record: no record for n = 1 or for a quoted value.
+
+   (c) parse_core5_doc: the core3 shapes with one more spelling, SMulti ws, at assignment and META sites.  Parsing a token list of the
+       shape doc5_sh returns the document d itself (hence the same document as any other spelling: spellings_converge) and the
+       multi-word records among the new warnings, in the order they were pushed, are exactly  E ts (doc5_mk d) : one record per site
+       spelled SMulti, in document order, with the words, the resulting string (= the site's string) and the position of the site's first
+       word token.  All nesting depths. *)
 From OV Require Import Base.Strs Lex.Lexer Syn.Ast Syn.Parser Rt.TokRound Rt.TokRound2 Rt.BareWordParse.
 From Coq Require Import Lia.
 Require Coq.Strings.String.
 Import Coq.Strings.String.StringSyntax.
 Open Scope N_scope.
 
-(* ---- what a step may change ---------------------------------------------------------------------------------------------------- *)
-Definition advisory4 (w : pwarn) : Prop := wsub w = 5 \/ wsub w = 6 \/ wsub w = 7 \/ wsub w = 9.
-Definition wext4 (st st' : pstate) : Prop := exists l, pwarns st' = l ++ pwarns st /\ Forall advisory4 l.
-Lemma wext4_refl st : wext4 st st.
-Proof. exists []. split; [reflexivity|constructor]. Qed.
-Lemma wext4_trans a b c : wext4 a b -> wext4 b c -> wext4 a c.
-Proof. intros (l1 & H1 & F1) (l2 & H2 & F2). exists (l2 ++ l1). split; [rewrite H2, H1, app_assoc; reflexivity|apply Forall_app; split; assumption]. Qed.
-Lemma wext4_adv st : wext4 st (adv st).
-Proof. exists []. split; [rewrite adv_warns; reflexivity|constructor]. Qed.
-Lemma wext4_warn w st : advisory4 w -> wext4 st (warn w st).
-Proof. intros H. exists [w]. split; [reflexivity|constructor; [exact H|constructor]]. Qed.
-
-Definition sext4 (st st' : pstate) : Prop := wext4 st st' /\ pbdepth st' = pbdepth st.
-Lemma sext4_refl st : sext4 st st.
-Proof. split; [apply wext4_refl|reflexivity]. Qed.
-Lemma sext4_trans a b c : sext4 a b -> sext4 b c -> sext4 a c.
-Proof. intros [W1 D1] [W2 D2]. split; [eapply wext4_trans; eassumption|congruence]. Qed.
-Lemma sext4_adv st : sext4 st (adv st).
-Proof. split; [apply wext4_adv|apply adv_depth]. Qed.
-Lemma sext4_warn w st : advisory4 w -> sext4 st (warn w st).
-Proof. intros H. split; [apply wext4_warn; exact H|reflexivity]. Qed.
-Lemma sext4_track_dup k l pos st : sext4 st (snd (track_dup k l pos st)).
-Proof.
-  unfold track_dup. destruct (find _ pos) as [[? ?]|]; cbn [snd]; [apply sext4_warn; left; reflexivity|apply sext4_refl].
-Qed.
-Lemma sext4_depth0 st st' : sext4 st st' -> pbdepth st = 0 -> pbdepth st' = 0.
-Proof. intros [_ H] H0. congruence. Qed.
-
-(* n tokens consumed, warnings grown by advisory records, bracket depth restored *)
-Definition moved4 (n : nat) (st st' : pstate) : Prop :=
-  wext4 st st' /\ pbdepth st' = pbdepth st /\ ppos st' = ppos st + N.of_nat n.
-Lemma moved4_refl st : moved4 0 st st.
-Proof. split; [apply wext4_refl|]. split; [reflexivity|]. cbn. rewrite N.add_0_r. reflexivity. Qed.
-Lemma moved4_trans n m a b c : moved4 n a b -> moved4 m b c -> moved4 (n + m) a c.
-Proof.
-  intros (W1 & D1 & P1) (W2 & D2 & P2). split; [eapply wext4_trans; eassumption|]. split; [congruence|]. rewrite P2, P1. lia.
-Qed.
-Lemma moved4_adv st t t2 r : ptoks st = t :: t2 :: r -> moved4 1 st (adv st).
-Proof. intros H. split; [apply wext4_adv|]. split; [apply adv_depth|]. unfold adv. rewrite H. reflexivity. Qed.
-Lemma moved4_warn w st : advisory4 w -> moved4 0 st (warn w st).
-Proof. intros H. split; [apply wext4_warn; exact H|]. split; [reflexivity|]. cbn. rewrite N.add_0_r. reflexivity. Qed.
-Lemma moved_moved4 n st st' : TokRound2.moved n st st' -> moved4 n st st'.
-Proof. intros (H1 & H2 & H3). split; [exists []; split; [exact H1|constructor]|]. split; assumption. Qed.
-Lemma moved4_sext4 n st st' : moved4 n st st' -> sext4 st st'.
-Proof. intros (H1 & H2 & _). split; assumption. Qed.
-
-(* no CONSTRAINT token: the holographic-pattern detection of parse_list cannot fire *)
-Definition noc (ts : list token) : Prop := existsb (fun t => tkind_eqb (tk t) CONSTRAINT) ts = false.
-Lemma noc_nil : noc [].
+(* ---- words ------------------------------------------------------------------------------------------------------------------------ *)
+(* a word as the parser sees it: token kind + payload *)
+Definition word := (tkind * tvalue)%type.
+(* _token_to_str on kind and payload (tok_to_str t = tts (tk t) (tv t), by conversion) *)
+Definition tts (k : tkind) (v : tvalue) : option str :=
+  match k, v with
+  | NUMBER, TVNum raw => Some raw
+  | BOOLEAN, TVBool b => Some (if b then lit "true" else lit "false")
+  | NULL, _ => Some (lit "null")
+  | STRING, TVText s => Some (c_dq :: s ++ [c_dq])
+  | EOF, _ => Some (lit "None")
+  | INDENT, TVCount n => Some (N_to_dec n)
+  | _, TVText s => Some s
+  | _, _ => None
+  end.
+Lemma tok_to_str_tts t : tok_to_str t = tts (tk t) (tv t).
 Proof. reflexivity. Qed.
-Lemma noc_app a b : noc a -> noc b -> noc (a ++ b).
-Proof. unfold noc. intros Ha Hb. rewrite existsb_app, Ha, Hb. reflexivity. Qed.
-Lemma noc_cons t ts : tk t <> CONSTRAINT -> noc ts -> noc (t :: ts).
-Proof. unfold noc. intros Ht Hs. cbn [existsb]. rewrite Hs, Bool.orb_false_r. destruct (tk t); try reflexivity. congruence. Qed.
-Lemma noc_skip ts : Forall (fun x => kin (tk x) [NEWLINE; INDENT; COMMENT] = true /\ tk x <> EOF) ts -> noc ts.
-Proof. induction 1 as [|t ts [Hk _] _ IH]; [reflexivity|]. apply noc_cons; [intros E; rewrite E in Hk; discriminate Hk|exact IH]. Qed.
+Definition wtext (w : word) : str := match tts (fst w) (snd w) with Some s => s | None => [] end.
+Definition word_ok (w : word) : bool :=
+  is_vtok (fst w) && match tts (fst w) (snd w) with Some s => negb (has_annotation s) | None => false end.
+Definition wsh (w : word) : sh := (fst w, Some (snd w)).
+Definition texts (ws : list word) : list str := map wtext ws.
 
-(* ---- shapes ------------------------------------------------------------------------------------------------------------------------ *)
-(* a bracket body over the token shapes of its items *)
-Fixpoint body_g (pre2 postlast pre : list sh) (xs : list (list sh)) : list sh :=
-  match xs with
-  | [] => pre ++ [(LIST_END, None)]
-  | x :: r => pre ++ x ++
-              match r with
-              | [] => postlast ++ [(LIST_END, None)]
-              | _ => (COMMA, None) :: body_g pre2 postlast pre2 r
-              end
-  end.
+(* the one record of a coalesced value: the words as written, their join, the position of the first word *)
+Definition mw_rec (words : list str) (t : token) : pwarn := mkW 1 (tline t) (tcol t) (join_sp words) [] words [].
 
-Section Shapes4.
-Variable ml : list value -> bool.
-Variable idnum : str -> bool.        (* section ids AND inline-map keys that reach the parser as a NUMBER token *)
-Variable qa : str -> str -> strk.
-Variable qi : str -> strk.
-
-Fixpoint val_sh4 (q : str -> strk) (D : nat) (v : value) {struct v} : list sh :=
-  match v with
-  | VList items =>
-      let item (D' : nat) (x : value) : list sh :=
-        match x with
-        | VMap [(k, mv)] => [id_sh idnum k; (ASSIGN, None)] ++ val_sh4 (qa k) D' mv
-        | VMap _ => []
-        | _ => val_sh4 qi D' x
-        end in
-      match items with
-      | [] => [(LIST_START, None); (LIST_END, None)]
-      | _ => if ml items
-             then (LIST_START, None) :: body_g (nl_sh ++ indent_sh (S D)) (nl_sh ++ indent_sh D) (nl_sh ++ indent_sh (S D)) (map (item (S D)) items)
-             else (LIST_START, None) :: body_g [] [] [] (map (item D) items)
-      end
-  | _ => [vsh3 q v]
-  end.
-Definition item_sh4 (D' : nat) (x : value) : list sh :=
-  match x with
-  | VMap [(k, mv)] => [id_sh idnum k; (ASSIGN, None)] ++ val_sh4 (qa k) D' mv
-  | VMap _ => []
-  | _ => val_sh4 qi D' x
-  end.
-
-Lemma val_sh4_list q D items :
-  exists p2 pl p D', TokRound2.skip_sh p2 = true /\ TokRound2.skip_sh pl = true /\ TokRound2.skip_sh p = true /\
-                     val_sh4 q D (VList items) = (LIST_START, None) :: body_g p2 pl p (map (item_sh4 D') items).
+Lemma wmatch_facts t w : tmatch t (wsh w) -> word_ok w = true ->
+  is_vtok (tk t) = true /\ tok_to_str t = Some (wtext w) /\ has_annotation (wtext w) = false.
 Proof.
-  destruct items as [|x xs].
-  - exists [], [], [], D. repeat split.
-  - cbn [val_sh4]. destruct (ml (x :: xs)).
-    + exists (nl_sh ++ indent_sh (S D)), (nl_sh ++ indent_sh D), (nl_sh ++ indent_sh (S D)), (S D).
-      rewrite !TokRound2.skip_sh_app, !TokRound2.skip_indent. repeat split.
-    + exists [], [], [], D. repeat split.
+  intros [Hk Hv] Hok. cbn [wsh fst snd] in Hk, Hv. unfold word_ok in Hok. apply andb_prop in Hok. destruct Hok as [H1 H2].
+  rewrite tok_to_str_tts, Hk, Hv. unfold wtext. destruct (tts (fst w) (snd w)) as [s|]; [|discriminate H2].
+  split; [exact H1|]. split; [reflexivity|]. apply Bool.negb_true_iff. exact H2.
 Qed.
 
-Fixpoint main_sh4 (D : nat) (n : node) : list sh :=
+(* what may follow the last word *)
+Definition mw_stop (k : tkind) : bool := negb (is_vtok k) && negb (is_eop k) && negb (tkind_eqb k LIST_START).
+Lemma after_scalar_stop k : after_scalar k = true -> mw_stop k = true.
+Proof. destruct k; try discriminate; reflexivity. Qed.
+Lemma vtok_facts k : is_vtok k = true -> is_eop k = false /\ tkind_eqb k LIST_START = false /\ tkind_eqb k BLOCK = false.
+Proof. destruct k; try discriminate; repeat split. Qed.
+
+Section Value.
+Variable numcanon : str -> option (bool * str).
+Variable holo_ok : str -> bool.
+Variable strict : bool.
+Variable sp : N -> bool.
+Notation pv := (parse_value numcanon holo_ok strict sp).
+
+(* the look-ahead for an annotation suffix finds none *)
+Lemma scan_words ws : forall tws nt r, Forall2 tmatch tws (map wsh ws) -> forallb word_ok ws = true -> is_vtok (tk nt) = false ->
+  scan_annotation (tws ++ nt :: r) = Some false.
+Proof.
+  induction ws as [|w ws IH]; intros tws nt r Hts Hok Hnt.
+  - inversion Hts; subst. cbn [app scan_annotation]. rewrite Hnt. reflexivity.
+  - cbn [map] in Hts. inversion Hts as [|t ? tr ? Ht Htr]; subst. cbn [forallb] in Hok. apply andb_prop in Hok. destruct Hok as [Hw Hws].
+    destruct (wmatch_facts t w Ht Hw) as (Hv & Hs & Ha). cbn [app scan_annotation]. rewrite Hv, Hs, Ha. exact (IH tr nt r Htr Hws Hnt).
+Qed.
+
+(* word_loop gathers the words, consuming exactly their tokens, changing nothing else *)
+Lemma word_loop_words ws : forall acc f st tws nt r,
+  Forall2 tmatch tws (map wsh ws) -> forallb word_ok ws = true -> mw_stop (tk nt) = true ->
+  ptoks st = tws ++ nt :: r -> (length tws + 1 <= f)%nat ->
+  exists st', word_loop f true acc st = POk (inr (rev acc ++ texts ws)) st' /\ ptoks st' = nt :: r /\
+              TokRound2.moved (length tws) st st'.
+Proof.
+  induction ws as [|w ws IH]; intros acc f st tws nt r Hts Hok Hnt Hst Hf.
+  - inversion Hts; subst. cbn [app] in Hst. destruct f as [|f]; [cbn in Hf; lia|].
+    unfold mw_stop in Hnt. apply andb_prop in Hnt. destruct Hnt as [Hnt _]. apply andb_prop in Hnt. destruct Hnt as [Hnv _].
+    apply Bool.negb_true_iff in Hnv.
+    cbn [word_loop]. unfold ck. rewrite (cur_hd _ _ _ Hst), Hnv. cbn [texts map]. rewrite app_nil_r.
+    exists st. split; [reflexivity|]. split; [exact Hst|apply TokRound2.moved_refl].
+  - cbn [map] in Hts. inversion Hts as [|t ? tr ? Ht Htr]; subst. cbn [forallb] in Hok. apply andb_prop in Hok. destruct Hok as [Hw Hws].
+    destruct (wmatch_facts t w Ht Hw) as (Hv & Hs & _).
+    cbn [app] in Hst. cbn [length] in Hf. destruct f as [|f]; [lia|].
+    assert (Hnx : exists t2 r2, tr ++ nt :: r = t2 :: r2 /\ is_eop (tk t2) = false /\ tkind_eqb (tk t2) LIST_START = false).
+    { destruct ws as [|w2 ws'].
+      - inversion Htr; subst. exists nt, r. split; [reflexivity|]. unfold mw_stop in Hnt. apply andb_prop in Hnt. destruct Hnt as [Hnt H3].
+        apply andb_prop in Hnt. destruct Hnt as [_ H2]. apply Bool.negb_true_iff in H2, H3. split; assumption.
+      - cbn [map] in Htr. inversion Htr as [|t2 ? tr2 ? Ht2 _]; subst. cbn [forallb] in Hws. apply andb_prop in Hws. destruct Hws as [Hw2 _].
+        destruct (wmatch_facts t2 w2 Ht2 Hw2) as (Hv2 & _ & _). destruct (vtok_facts _ Hv2) as (E1 & E2 & _).
+        exists t2, (tr2 ++ nt :: r). split; [reflexivity|]. split; assumption. }
+    destruct Hnx as (t2 & r2 & E2 & Heop & Hls). rewrite E2 in Hst.
+    cbn [word_loop]. unfold ck. rewrite (cur_hd _ _ _ Hst), Hv, (peek1_hd _ _ _ _ Hst), Heop, Hs.
+    pose proof (adv_toks _ _ _ _ Hst) as H1. rewrite (is_hd _ _ _ LIST_START H1), Hls. cbn [andb].
+    rewrite <- E2 in H1.
+    destruct (IH (wtext w :: acc) f (adv st) tr nt r Htr Hws Hnt H1) as (st' & Hl & Hp & Hm); [lia|].
+    rewrite Hl. exists st'. split; [cbn [rev texts map]; rewrite <- app_assoc; reflexivity|]. split; [exact Hp|].
+    change (length (t :: tr)) with (1 + length tr)%nat. eapply TokRound2.moved_trans; [exact (TokRound2.moved_adv _ _ _ _ Hst)|exact Hm].
+Qed.
+
+(* (b) THE multi-word lemma *)
+Theorem pv_multi f st w1 ws t1 tws nt r :
+  ptoks st = t1 :: tws ++ nt :: r ->
+  tmatch t1 (IDENTIFIER, Some (TVText w1)) -> has_annotation w1 = false ->
+  ws <> [] -> Forall2 tmatch tws (map wsh ws) -> forallb word_ok ws = true -> mw_stop (tk nt) = true ->
+  exists st', pv (S f) st = POk (VStr (join_sp (w1 :: texts ws))) st' /\ ptoks st' = nt :: r /\
+              pwarns st' = mw_rec (w1 :: texts ws) t1 :: pwarns st /\ pbdepth st' = pbdepth st /\
+              ppos st' = ppos st + N.of_nat (S (length tws)).
+Proof.
+  intros Hst [Hk Hv] Ha Hne Hts Hok Hnt. cbn [fst snd] in Hk, Hv.
+  destruct ws as [|w2 ws']; [congruence|]. clear Hne.
+  pose proof Hts as Hts'. cbn [map] in Hts'. inversion Hts' as [|t2 ? tr2 ? Ht2 _]; subst. clear Hts'.
+  pose proof Hok as Hok'. cbn [forallb] in Hok'. apply andb_prop in Hok'. destruct Hok' as [Hw2 _].
+  destruct (wmatch_facts t2 w2 Ht2 Hw2) as (Hv2 & _ & _). destruct (vtok_facts _ Hv2) as (K1 & K2 & K3).
+  rewrite <- app_comm_cons in Hst.
+  rewrite BareWordParse.pv_ident_eq by (unfold ck; rewrite (cur_hd _ _ _ Hst); exact Hk).
+  cbv zeta. rewrite (cur_hd _ _ _ Hst), (peek1_hd _ _ _ _ Hst).
+  assert (Ht : text_of t1 = w1) by (unfold text_of; rewrite Hv; reflexivity). rewrite !Ht.
+  pose proof (adv_toks _ _ _ _ Hst) as H1.
+  rewrite K1, K2. cbn [andb]. rewrite (is_hd _ _ _ LIST_START H1), K2. cbn [bind].
+  assert (Hcp : colon_path (fuel_of (adv st)) [] (adv st) = ([], adv st)).
+  { unfold fuel_of. cbn [colon_path]. rewrite (is_hd _ _ _ BLOCK H1), K3. reflexivity. }
+  rewrite Hcp, Ha, H1.
+  assert (Hnv : is_vtok (tk nt) = false).
+  { unfold mw_stop in Hnt. apply andb_prop in Hnt. destruct Hnt as [Hnt _]. apply andb_prop in Hnt. destruct Hnt as [Hnv _].
+    apply Bool.negb_true_iff. exact Hnv. }
+  change (t2 :: tr2 ++ nt :: r) with ((t2 :: tr2) ++ nt :: r).
+  rewrite (scan_words (w2 :: ws') (t2 :: tr2) nt r Hts Hok Hnv). cbv iota.
+  destruct (word_loop_words (w2 :: ws') [w1] (fuel_of (adv st)) (adv st) (t2 :: tr2) nt r Hts Hok Hnt H1) as (st4 & Hl & Hp4 & Hm4);
+    [rewrite (fuel_of_toks _ _ H1); cbn [length]; rewrite app_length; lia|].
+  unfold str in *. rewrite Hl. cbn [bind rev app].
+  assert (Hlen : (1 <? length (w1 :: texts (w2 :: ws')))%nat = true) by reflexivity.
+  rewrite Hlen.
+  unfold trailing_brackets. rewrite (is_hd _ _ _ LIST_START (eq_trans (warn_toks _ _) Hp4)).
+  assert (Hls : tkind_eqb (tk nt) LIST_START = false).
+  { unfold mw_stop in Hnt. apply andb_prop in Hnt. destruct Hnt as [_ H3]. apply Bool.negb_true_iff. exact H3. }
+  rewrite Hls. cbn [bind].
+  eexists. split; [reflexivity|]. split; [rewrite warn_toks; exact Hp4|].
+  destruct Hm4 as (Hw4 & Hd4 & Hpos4). pose proof (TokRound2.moved_adv _ _ _ _ Hst) as (Hw1 & Hd1 & Hpos1).
+  cbn [warn pwarns pbdepth ppos]. rewrite Hw4, Hw1, Hd4, Hd1, Hpos4, Hpos1.
+  split; [reflexivity|]. split; [reflexivity|]. cbn [length]. lia.
+Qed.
+
+(* no record for one word, none for a quoted value *)
+Corollary pv_one_word_no_record f st t nt r s :
+  ptoks st = t :: nt :: r -> tk t = IDENTIFIER -> tv t = TVText s -> after_scalar (tk nt) = true -> has_annotation s = false ->
+  exists st', pv (S f) st = POk (VStr s) st' /\ pwarns st' = pwarns st.
+Proof.
+  intros Hst Hk Hv Hn Ha. rewrite (BareWordParse.pv_bare numcanon holo_ok strict sp f st t nt r s Hst Hk Hv Hn Ha).
+  exists (adv st). split; [reflexivity|apply adv_warns].
+Qed.
+Corollary pv_quoted_no_record f st t nt r s :
+  ptoks st = t :: nt :: r -> tk t = STRING -> tv t = TVText s -> after_scalar (tk nt) = true ->
+  exists st', pv (S f) st = POk (VStr s) st' /\ pwarns st' = pwarns st.
+Proof.
+  intros Hst Hk Hv Hn.
+  rewrite (BareWordParse.pv_scalar2 numcanon holo_ok strict sp f st t nt r (SStr s) Hst (conj Hk Hv) Hn I).
+  exists (adv st). split; [reflexivity|apply adv_warns].
+Qed.
+End Value.
+
+(* ---- spellings, shapes with receipt marks --------------------------------------------------------------------------------------------- *)
+(* how a string value at an assignment / META site is written: one token (quoted, bare word, variable) or several words *)
+Inductive spell := SP (q : strk) | SMulti (w1 : str) (ws : list word).
+Definition multi_ok (s w1 : str) (ws : list word) : bool :=
+  negb (has_annotation w1) && negb (is_nil ws) && forallb word_ok ws && str_eqb (join_sp (w1 :: texts ws)) s.
+Definition spell_ok (s : str) (x : spell) : bool :=
+  match x with
+  | SP QIdent => negb (has_annotation s)
+  | SP _ => true
+  | SMulti w1 ws => multi_ok s w1 ws
+  end.
+
+(* a mark per token of a shape: Some words on the FIRST word token of a multi-word site *)
+Definition mark := option (list str).
+Definition nomk (n : nat) : list mark := repeat None n.
+Definition sp_sh (x : spell) (s : str) : list sh :=
+  match x with
+  | SP q => [(match q with QStr => STRING | QIdent => IDENTIFIER | QVar => VARIABLE end, Some (TVText s))]
+  | SMulti w1 ws => (IDENTIFIER, Some (TVText w1)) :: map wsh ws
+  end.
+Definition sp_mk (x : spell) : list mark :=
+  match x with
+  | SP _ => [None]
+  | SMulti w1 ws => Some (w1 :: texts ws) :: nomk (length ws)
+  end.
+
+(* the records expected from a token list under a mark list *)
+Fixpoint E (ts : list token) (ms : list mark) : list pwarn :=
+  match ts, ms with
+  | t :: tr, m :: mr => (match m with Some ws => [mw_rec ws t] | None => [] end) ++ E tr mr
+  | _, _ => []
+  end.
+Lemma E_app ts1 ts2 m1 m2 : length ts1 = length m1 -> E (ts1 ++ ts2) (m1 ++ m2) = E ts1 m1 ++ E ts2 m2.
+Proof.
+  revert m1. induction ts1 as [|t tr IH]; intros [|m mr] H; try discriminate H; [reflexivity|].
+  cbn [app E]. rewrite IH by (cbn [length] in H; lia). rewrite app_assoc. reflexivity.
+Qed.
+Lemma E_nomk ts n : E ts (nomk n) = [].
+Proof. revert n. induction ts as [|t tr IH]; intros [|n]; try reflexivity. cbn [nomk repeat E app]. apply IH. Qed.
+Lemma E_skip tpre tm n mk : length tpre = n -> E (tpre ++ tm) (nomk n ++ mk) = E tm mk.
+Proof. intros H. rewrite E_app by (unfold nomk; rewrite repeat_length; exact H). rewrite E_nomk. reflexivity. Qed.
+Lemma nomk_len n : length (nomk n) = n.
+Proof. apply repeat_length. Qed.
+Lemma nomk_app a b : nomk (a + b) = nomk a ++ nomk b.
+Proof. apply repeat_app. Qed.
+
+(* ---- the state relation with receipts --------------------------------------------------------------------------------------------------- *)
+Definition is_mw (w : pwarn) : bool := N.eqb (wsub w) 1.
+Definition advisory5 (w : pwarn) : Prop := wsub w = 1 \/ wsub w = 5 \/ wsub w = 9.
+(* sx st st' rs: the warnings grew by records of subtypes 1 / 5 / 9, the multi-word records among them, in the order they were pushed,
+   are rs; the bracket depth is unchanged *)
+Definition sx (st st' : pstate) (rs : list pwarn) : Prop :=
+  (exists l, pwarns st' = l ++ pwarns st /\ Forall advisory5 l /\ filter is_mw (rev l) = rs) /\ pbdepth st' = pbdepth st.
+Lemma sx_of_sext st st' : sext st st' -> sx st st' [].
+Proof.
+  intros [(l & E1 & F) D]. split; [|exact D]. exists l. split; [exact E1|]. split.
+  - eapply Forall_impl; [|exact F]. intros w [H|H]; [right; left; exact H|right; right; exact H].
+  - rewrite <- (rev_involutive l) in F. apply Forall_rev in F. rewrite rev_involutive in F. induction F as [|w r Hw _ IH]; [reflexivity|].
+    cbn [filter]. unfold is_mw. destruct Hw as [H|H]; rewrite H; exact IH.
+Qed.
+Lemma sx_trans a b c r1 r2 : sx a b r1 -> sx b c r2 -> sx a c (r1 ++ r2).
+Proof.
+  intros [(l1 & E1 & F1 & R1) D1] [(l2 & E2 & F2 & R2) D2]. split; [|congruence]. exists (l2 ++ l1).
+  split; [rewrite E2, E1, app_assoc; reflexivity|]. split; [apply Forall_app; split; assumption|].
+  rewrite rev_app_distr, filter_app, R1, R2. reflexivity.
+Qed.
+Lemma sx_pre a b c r : sext a b -> sx b c r -> sx a c r.
+Proof. intros H1 H2. exact (sx_trans a b c [] r (sx_of_sext _ _ H1) H2). Qed.
+Lemma sx_post a b c r : sx a b r -> sext b c -> sx a c r.
+Proof. intros H1 H2. rewrite <- (app_nil_r r). exact (sx_trans a b c r [] H1 (sx_of_sext _ _ H2)). Qed.
+Lemma sx_eq a b r r' : sx a b r -> r = r' -> sx a b r'.
+Proof. intros H <-. exact H. Qed.
+Lemma sx_depth0 st st' r : sx st st' r -> pbdepth st = 0 -> pbdepth st' = 0.
+Proof. intros [_ H] H0. congruence. Qed.
+Lemma sx_sext0 st st' : sx st st' [] -> True.
+Proof. trivial. Qed.
+
+Section Shapes5.
+Variable ml : list value -> bool.
+Variable idnum : str -> bool.
+Variable qa5 : str -> str -> spell.     (* assignment sites: key, string *)
+Variable qm5 : str -> spell.            (* META sites *)
+Variable qi : str -> strk.              (* list items: one token each (a multi-word item is not a legal respelling, see MultiWordEx.v) *)
+
+Definition val_sh5 (sp : str -> spell) (D : nat) (v : value) : list sh :=
+  match v with
+  | VStr s => sp_sh (sp s) s
+  | _ => val_sh3 ml qi qi D v
+  end.
+Definition val_mk5 (sp : str -> spell) (D : nat) (v : value) : list mark :=
+  match v with
+  | VStr s => sp_mk (sp s)
+  | _ => nomk (length (val_sh3 ml qi qi D v))
+  end.
+Lemma val_mk5_len sp D v : length (val_mk5 sp D v) = length (val_sh5 sp D v).
+Proof.
+  destruct v; cbn [val_mk5 val_sh5]; try apply nomk_len.
+  destruct (sp s) as [q|w1 ws]; [reflexivity|]. cbn [sp_mk sp_sh length]. rewrite nomk_len, map_length. reflexivity.
+Qed.
+
+Fixpoint main_sh5 (D : nat) (n : node) : list sh :=
   match n with
-  | NAssign k v _ t => [(IDENTIFIER, Some (TVText k)); (ASSIGN, None)] ++ val_sh4 (qa k) D v ++ trail_sh t ++ [(NEWLINE, None)]
+  | NAssign k v _ t => [(IDENTIFIER, Some (TVText k)); (ASSIGN, None)] ++ val_sh5 (qa5 k) D v ++ trail_sh t ++ [(NEWLINE, None)]
   | NBlock k _ ch _ =>
       [(IDENTIFIER, Some (TVText k)); (BLOCK, None); (NEWLINE, None)] ++
-      flat_map (fun c => lead_sh (S D) (lead_of c) ++ indent_sh (S D) ++ main_sh4 (S D) c) ch
+      flat_map (fun c => lead_sh (S D) (lead_of c) ++ indent_sh (S D) ++ main_sh5 (S D) c) ch
   | NSection i k a ch _ =>
       [(SECTION, None); id_sh idnum i; (ASSIGN, None); (IDENTIFIER, Some (TVText k))] ++ annot_sh a ++ [(NEWLINE, None)] ++
-      flat_map (fun c => lead_sh (S D) (lead_of c) ++ indent_sh (S D) ++ main_sh4 (S D) c) ch
+      flat_map (fun c => lead_sh (S D) (lead_of c) ++ indent_sh (S D) ++ main_sh5 (S D) c) ch
   | NComment _ => []
   end.
-Definition node_sh4 (D : nat) (n : node) : list sh := lead_sh D (lead_of n) ++ indent_sh D ++ main_sh4 D n.
-Definition nodes_sh4 (D : nat) (ns : list node) : list sh := flat_map (node_sh4 D) ns.
-
-Lemma main_sh4_block D k t ch l :
-  main_sh4 D (NBlock k t ch l) = [(IDENTIFIER, Some (TVText k)); (BLOCK, None); (NEWLINE, None)] ++ nodes_sh4 (S D) ch.
+Definition node_sh5 (D : nat) (n : node) : list sh := lead_sh D (lead_of n) ++ indent_sh D ++ main_sh5 D n.
+Definition nodes_sh5 (D : nat) (ns : list node) : list sh := flat_map (node_sh5 D) ns.
+Lemma main_sh5_block D k t ch l :
+  main_sh5 D (NBlock k t ch l) = [(IDENTIFIER, Some (TVText k)); (BLOCK, None); (NEWLINE, None)] ++ nodes_sh5 (S D) ch.
 Proof. reflexivity. Qed.
-Lemma main_sh4_section D i k a ch l :
-  main_sh4 D (NSection i k a ch l) =
-  [(SECTION, None); id_sh idnum i; (ASSIGN, None); (IDENTIFIER, Some (TVText k))] ++ annot_sh a ++ [(NEWLINE, None)] ++ nodes_sh4 (S D) ch.
+Lemma main_sh5_section D i k a ch l :
+  main_sh5 D (NSection i k a ch l) =
+  [(SECTION, None); id_sh idnum i; (ASSIGN, None); (IDENTIFIER, Some (TVText k))] ++ annot_sh a ++ [(NEWLINE, None)] ++ nodes_sh5 (S D) ch.
 Proof. reflexivity. Qed.
 
-Definition meta_sh4 (m : list (str * metaval)) : list sh :=
+(* the marks, token for token *)
+Fixpoint main_mk5 (D : nat) (n : node) : list mark :=
+  match n with
+  | NAssign k v _ t => nomk 2 ++ val_mk5 (qa5 k) D v ++ nomk (length (trail_sh t)) ++ nomk 1
+  | NBlock k _ ch _ =>
+      nomk 3 ++ flat_map (fun c => nomk (length (lead_sh (S D) (lead_of c)) + length (indent_sh (S D))) ++ main_mk5 (S D) c) ch
+  | NSection i k a ch _ =>
+      nomk 4 ++ nomk (length (annot_sh a)) ++ nomk 1 ++
+      flat_map (fun c => nomk (length (lead_sh (S D) (lead_of c)) + length (indent_sh (S D))) ++ main_mk5 (S D) c) ch
+  | NComment _ => []
+  end.
+Definition node_mk5 (D : nat) (n : node) : list mark := nomk (length (lead_sh D (lead_of n)) + length (indent_sh D)) ++ main_mk5 D n.
+Definition nodes_mk5 (D : nat) (ns : list node) : list mark := flat_map (node_mk5 D) ns.
+Lemma main_mk5_block D k t ch l : main_mk5 D (NBlock k t ch l) = nomk 3 ++ nodes_mk5 (S D) ch.
+Proof. reflexivity. Qed.
+Lemma main_mk5_section D i k a ch l :
+  main_mk5 D (NSection i k a ch l) = nomk 4 ++ nomk (length (annot_sh a)) ++ nomk 1 ++ nodes_mk5 (S D) ch.
+Proof. reflexivity. Qed.
+
+Lemma nodes_mk5_len D ch :
+  Forall (fun n => forall D, length (main_mk5 D n) = length (main_sh5 D n)) ch -> length (nodes_mk5 D ch) = length (nodes_sh5 D ch).
+Proof.
+  induction 1 as [|c cs Hc _ IH]; [reflexivity|]. cbn [nodes_mk5 nodes_sh5 flat_map].
+  unfold nodes_mk5, nodes_sh5 in IH. rewrite !app_length, IH. f_equal.
+  unfold node_mk5, node_sh5. rewrite !app_length, nomk_len, Hc. lia.
+Qed.
+Lemma main_mk5_len n : forall D, length (main_mk5 D n) = length (main_sh5 D n).
+Proof.
+  induction n using node_ind2; intros D.
+  - cbn [main_mk5 main_sh5]. rewrite !app_length, !nomk_len, val_mk5_len. reflexivity.
+  - rewrite main_mk5_block, main_sh5_block, !app_length, nomk_len, (nodes_mk5_len (S D) ch H). reflexivity.
+  - rewrite main_mk5_section, main_sh5_section, !app_length, !nomk_len, (nodes_mk5_len (S D) ch H). reflexivity.
+  - reflexivity.
+Qed.
+
+Definition meta_sh5 (m : list (str * metaval)) : list sh :=
   match m with
   | [] => []
   | _ => [(IDENTIFIER, Some (TVText (lit "META"))); (BLOCK, None); (NEWLINE, None)] ++
          flat_map (fun kv => indent_sh 1 ++ [(IDENTIFIER, Some (TVText (fst kv))); (ASSIGN, None)] ++
-                             (match snd kv with MV v => val_sh4 qi 1 v | MD _ => [] end) ++ [(NEWLINE, None)]) m
+                             (match snd kv with MV v => val_sh5 qm5 1 v | MD _ => [] end) ++ [(NEWLINE, None)]) m
+  end.
+Definition meta_mk5 (m : list (str * metaval)) : list mark :=
+  match m with
+  | [] => []
+  | _ => nomk 3 ++ flat_map (fun kv => nomk 3 ++ (match snd kv with MV v => val_mk5 qm5 1 v | MD _ => [] end) ++ nomk 1) m
   end.
 
-Definition doc4_sh (d : doc) : list sh :=
+Definition doc5_sh (d : doc) : list sh :=
   (match dgrammar d with Some g => [(GRAMMAR_SENTINEL, Some (TVText g)); (NEWLINE, None)] | None => [] end) ++
   [(ENVELOPE_START, Some (TVText (dname d))); (NEWLINE, None)] ++
-  meta_sh4 (dmeta d) ++
+  meta_sh5 (dmeta d) ++
   (if dsep d then [(SEPARATOR, None); (NEWLINE, None)] else []) ++
-  nodes_sh4 0 (dsections d) ++ lead_sh 0 (dtrailing d) ++ [(ENVELOPE_END, None)].
-End Shapes4.
+  nodes_sh5 0 (dsections d) ++ lead_sh 0 (dtrailing d) ++ [(ENVELOPE_END, None)].
+Definition doc5_mk (d : doc) : list mark :=
+  nomk (match dgrammar d with Some _ => 2 | None => 0 end) ++ nomk 2 ++ meta_mk5 (dmeta d) ++ nomk (if dsep d then 2 else 0) ++
+  nodes_mk5 0 (dsections d) ++ nomk (length (lead_sh 0 (dtrailing d))) ++ nomk 1.
+End Shapes5.
 
-(* ---- the fragment ------------------------------------------------------------------------------------------------------------------ *)
-(* am: inline-map items allowed (not inside the value of a map item: parse_list_item warns / fails on nested inline maps);
-   lv: remaining nesting budget (a list opened at bracket depth >= 100 is an error) *)
-Fixpoint cv (am : bool) (lv : nat) (v : value) {struct v} : bool :=
-  match v with
-  | VList items =>
-      match lv with
-      | O => false
-      | S lv' => forallb (fun x => match x with
-                                   | VMap [(k, mv)] => am && cv false lv' mv
-                                   | VMap _ => false
-                                   | _ => cv am lv' x
-                                   end) items
-      end
-  | VMap _ => false
-  | _ => is_scalar v
-  end.
-Definition item_ok (am : bool) (lv' : nat) (x : value) : bool :=
-  match x with
-  | VMap [(k, mv)] => am && cv false lv' mv
-  | VMap _ => false
-  | _ => cv am lv' x
-  end.
-Lemma cv_list am lv' items : cv am (S lv') (VList items) = forallb (item_ok am lv') items.
-Proof. reflexivity. Qed.
-Definition max_lists : nat := 99.
-Definition cval4 (v : value) : bool := cv true max_lists v.
-
-Fixpoint core4_node (n : node) : bool :=
-  match n with
-  | NAssign k v _ t => cval4 v && opt_ne t
-  | NBlock k None ch _ => negb (is_nil ch) && forallb core4_node ch
-  | NSection i k a ch _ => opt_ne a && (negb (is_nil ch) && forallb core4_node ch)
-  | _ => false
-  end.
-Definition meta_field_ok4 (kv : str * metaval) : bool := match snd kv with MV v => cval4 v | MD _ => false end.
-Definition core4_doc (d : doc) : bool :=
-  match dfront d with
-  | None =>
-      forallb core4_node (dsections d) && top_ok (dsections d) (dtrailing d) &&
-      forallb meta_field_ok4 (dmeta d) && nodupb (map fst (dmeta d)) &&
-      (negb (is_nil (dmeta d)) || dsep d || first_key_not_meta2 (dsections d))
-  | Some _ => false
-  end.
-
-(* nested inline maps counted by parse_list_item: none in the value of a map item of the fragment *)
-Lemma nm0 : forall lv v, cv false lv v = true -> nm_count v = 0.
-Proof.
-  induction lv as [|lv' IH]; intros v Hc.
-  - destruct v; cbn [cv] in Hc; try discriminate Hc; reflexivity.
-  - destruct v as [|b|isf c|s|items| | | |]; cbn [cv is_scalar sval_of] in Hc; try discriminate Hc; try reflexivity.
-    change (forallb (item_ok false lv') items = true) in Hc. cbn [nm_count nm_list_of].
-    induction items as [|x xs IHx]; [reflexivity|]. cbn [forallb] in Hc. apply andb_prop in Hc. destruct Hc as [Hx Hxs].
-    specialize (IHx Hxs). destruct x as [|b|isf c|s|inner|pairs| | |]; cbn [item_ok] in Hx; try exact IHx.
-    + pose proof (IH _ Hx) as H0. cbn [nm_count] in H0. rewrite H0. exact IHx.
-    + destruct pairs as [|[k mv] [|? ?]]; discriminate Hx.
-Qed.
-
-Section Core4.
+Section Core5.
 Variable numcanon : str -> option (bool * str).
 Variable holo_ok : str -> bool.
 Variable strict : bool.
 Variable sp alpha : N -> bool.
 Variable ml : list value -> bool.
 Variable idnum : str -> bool.
-Variable qa : str -> str -> strk.
+Variable qa5 : str -> str -> spell.
+Variable qm5 : str -> spell.
 Variable qi : str -> strk.
-Hypothesis qa_ok : forall k s, qa k s = QIdent -> has_annotation s = false.
+Hypothesis qa5_ok : forall k s, spell_ok s (qa5 k s) = true.
+Hypothesis qm5_ok : forall s, spell_ok s (qm5 s) = true.
 Hypothesis qi_ok : forall s, qi s = QIdent -> has_annotation s = false.
 
 Notation pv := (parse_value numcanon holo_ok strict sp).
-Notation plist := (parse_list numcanon holo_ok strict sp).
-Notation plloop := (parse_list_loop numcanon holo_ok strict sp).
-Notation plitem := (parse_list_item numcanon holo_ok strict sp).
-Notation num_ok_v := (TokRound.num_ok_v numcanon).
-Notation val_sh4 := (val_sh4 ml idnum qa qi).
-Notation item_sh4 := (item_sh4 ml idnum qa qi).
-
-Ltac is_step H Hk :=
-  repeat rewrite (is_hd _ _ _ _ H); rewrite ?Hk;
-  cbn [tkind_eqb tkind_code N.eqb Pos.eqb orb andb negb kin existsb].
-
-(* oracle side conditions on a value: every number reads back; a numeric inline-map key reads back *)
-Definition key_ok (k : str) : Prop := idnum k = true -> exists isf, numcanon k = Some (isf, k).
-Fixpoint num_ok4 (v : value) : Prop :=
-  match v with
-  | VList items => (fix go (l : list value) : Prop := match l with [] => True | x :: r => num_ok4 x /\ go r end) items
-  | VMap pairs => (fix go (l : list (str * value)) : Prop := match l with [] => True | p :: r => (key_ok (fst p) /\ num_ok4 (snd p)) /\ go r end) pairs
-  | _ => num_ok_v v
-  end.
-Lemma num_ok4_list items : num_ok4 (VList items) <-> Forall num_ok4 items.
-Proof.
-  cbn [num_ok4]. induction items as [|x xs IH]; [split; [constructor|trivial]|]. split.
-  - intros [Hx Hxs]. constructor; [exact Hx|apply IH; exact Hxs].
-  - intros H. inversion H as [|? ? Hx Hxs]; subst. split; [exact Hx|apply IH; exact Hxs].
-Qed.
-
-(* ---- one list item ------------------------------------------------------------------------------------------------------------------ *)
-Lemma plitem_eq f st :
-  plitem (S f) st =
-      let t := cur st in
-      let idk := is IDENTIFIER st && tkind_eqb (tk (peek1 st)) ASSIGN in
-      let numk := is NUMBER st && tkind_eqb (tk (peek1 st)) ASSIGN in
-      if idk || numk then
-        match (if numk then match tv t with TVNum raw => match numcanon raw with Some (_, c) => Some c | None => None end | _ => None end
-               else Some (text_of t)) with
-        | None => POut 5
-        | Some key =>
-            let st1 := adv (adv st) in
-            let quoted := is STRING st1 in
-            do (v, st2) <- pv f st1;
-            let n := nm_count v in
-            if strict && (0 <? n) then err_at (lit "E_NESTED_INLINE_MAP") t
-            else
-              let st3 := repeat_warn (N.to_nat n) (mkW 8 (tline t) (tcol t) key [] [] []) st2 in
-              let st4 := match is_vstr v with
-                         | Some s => if idk && str_in key pattern_keys && negb quoted
-                                     then warn (mkW 9 (tline t) (tcol t) key s [] []) st3 else st3
-                         | None => st3
-                         end in
-              let st5 := if idk && str_in key known_constructors && quoted
-                         then warn (mkW 7 (tline t) (tcol t) key (match is_vstr v with Some s => s | None => [] end) [] []) st4
-                         else st4 in
-              POk (VMap [(key, v)]) st5
-        end
-      else pv f st.
-Proof. reflexivity. Qed.
-
-Lemma plitem_plain f st t t2 r :
-  ptoks st = t :: t2 :: r -> (kin (tk t) [IDENTIFIER; NUMBER] = false \/ tkind_eqb (tk t2) ASSIGN = false) ->
-  plitem (S f) st = pv f st.
-Proof.
-  intros Hst H. rewrite plitem_eq. cbv zeta. rewrite (is_hd _ _ _ IDENTIFIER Hst), (is_hd _ _ _ NUMBER Hst), (peek1_hd _ _ _ _ Hst).
-  destruct H as [H|H].
-  - destruct (tk t); try discriminate H; reflexivity.
-  - rewrite H, !Bool.andb_false_r. reflexivity.
-Qed.
-
-(* the parse_value statement at nesting budget lv *)
-Definition PV (lv : nat) : Prop :=
-  forall v am q D f st ts nt r,
-    cv am lv v = true -> num_ok4 v -> (forall s, q s = QIdent -> has_annotation s = false) ->
-    (2 * length ts + 1 <= f)%nat ->
-    Forall2 tmatch ts (val_sh4 q D v) -> ptoks st = ts ++ nt :: r -> after_scalar (tk nt) = true ->
-    pbdepth st + N.of_nat lv <= 99 ->
-    exists st', pv f st = POk v st' /\ ptoks st' = nt :: r /\ moved4 (length ts) st st' /\ noc ts.
-
-Definition itk (k : tkind) : bool := kin k [NULL; BOOLEAN; NUMBER; STRING; IDENTIFIER; VARIABLE; LIST_START].
-
-Lemma vsh3_itk q v : is_scalar v = true -> itk (fst (vsh3 q v)) = true.
-Proof. destruct v; cbn [is_scalar sval_of]; try discriminate; intros _; try reflexivity. cbn [vsh3 fst]. destruct (q s); reflexivity. Qed.
-
-Lemma val_sh4_scalar q D v : is_scalar v = true -> val_sh4 q D v = [vsh3 q v].
-Proof. destruct v; cbn [is_scalar sval_of]; try discriminate; reflexivity. Qed.
-
-Lemma item_first am lv' D' x : item_ok am lv' x = true -> exists s rest, item_sh4 D' x = s :: rest /\ itk (fst s) = true.
-Proof.
-  destruct x as [|b|isf c|s|inner|pairs| | |]; cbn [item_ok cv is_scalar sval_of]; try discriminate; intros H;
-    try (eexists; eexists; split; [reflexivity|]; try reflexivity; cbn [vsh3 fst]; destruct (qi s); reflexivity).
-  - destruct (val_sh4_list ml idnum qa qi qi D' inner) as (p2 & pl & p & D2 & _ & _ & _ & E).
-    unfold TokRound4.item_sh4. rewrite E. eexists; eexists. split; reflexivity.
-  - destruct pairs as [|[k mv] [|? ?]]; try discriminate H. cbn [TokRound4.item_sh4 app]. eexists; eexists. split; [reflexivity|].
-    unfold id_sh. destruct (idnum k); reflexivity.
-Qed.
-
-Lemma item_read lv' : PV lv' ->
-  forall am D' x g st tx nt r,
-    item_ok am lv' x = true -> num_ok4 x -> (2 * length tx + 2 <= g)%nat ->
-    Forall2 tmatch tx (item_sh4 D' x) -> ptoks st = tx ++ nt :: r -> after_scalar (tk nt) = true ->
-    pbdepth st + N.of_nat lv' <= 99 ->
-    exists st2, plitem g st = POk x st2 /\ ptoks st2 = nt :: r /\ moved4 (length tx) st st2 /\ noc tx.
-Proof.
-  intros HPV am D' x g st tx nt r Hok Hnum Hg Htx Hst Hnt Hdep.
-  assert (Hplain : (forall pairs, x <> VMap pairs) -> item_sh4 D' x = val_sh4 qi D' x -> cv am lv' x = true ->
-                   exists st2, plitem g st = POk x st2 /\ ptoks st2 = nt :: r /\ moved4 (length tx) st st2 /\ noc tx).
-  { intros Hnm Esh Hcv. rewrite Esh in Htx.
-    assert (Htok : exists t t2 r', ptoks st = t :: t2 :: r' /\ (kin (tk t) [IDENTIFIER; NUMBER] = false \/ tkind_eqb (tk t2) ASSIGN = false)).
-    { destruct x as [|b|isf c|s|inner|pairs| | |]; cbn [cv is_scalar sval_of] in Hcv; try discriminate Hcv;
-        try (rewrite val_sh4_scalar in Htx by reflexivity; inversion Htx as [|t ? ? ? _ Hnil]; subst; inversion Hnil; subst;
-             cbn [app] in Hst; exists t, nt, r; split; [exact Hst|right]; destruct (tk nt); try discriminate Hnt; reflexivity).
-      destruct (val_sh4_list ml idnum qa qi qi D' inner) as (p2 & pl & p & D2 & _ & _ & _ & E). rewrite E in Htx.
-      inversion Htx as [|tL ? tsb ? [HLk _] Hb]; subst. cbn [fst] in HLk. rewrite <- app_comm_cons in Hst.
-      assert (Hne : exists t2 r', tsb ++ nt :: r = t2 :: r') by (destruct tsb; cbn [app]; eauto). destruct Hne as (t2 & r' & E2). rewrite E2 in Hst.
-      exists tL, t2, r'. split; [exact Hst|left]. rewrite HLk. reflexivity. }
-    destruct Htok as (t & t2 & r' & Hst' & Hpl). destruct g as [|g]; [lia|].
-    rewrite (plitem_plain g st t t2 r' Hst' Hpl).
-    exact (HPV x am qi D' g st tx nt r Hcv Hnum qi_ok ltac:(lia) Htx Hst Hnt Hdep). }
-  destruct x as [|b|isf c|s|inner|pairs| | |]; cbn [item_ok] in Hok; try discriminate Hok;
-    try (apply Hplain; [intros pairs; discriminate|reflexivity|exact Hok]).
-  (* an inline-map item K::v *)
-  destruct pairs as [|[k mv] [|? ?]]; try discriminate Hok. apply andb_prop in Hok. destruct Hok as [_ Hcv].
-  cbn [num_ok4 fst snd] in Hnum. destruct Hnum as [[Hkey Hnmv] _].
-  cbn [TokRound4.item_sh4 app] in Htx.
-  inversion Htx as [|tk_ ? ? ? Hkm Htx1]; subst. inversion Htx1 as [|ta ? tv_ ? [Hak _] Htv]; subst. cbn [fst] in Hak.
-  rewrite <- !app_comm_cons in Hst.
-  assert (Hne : exists t1 r1, tv_ ++ nt :: r = t1 :: r1) by (destruct tv_; cbn [app]; eauto). destruct Hne as (t1 & r1 & E1). rewrite E1 in Hst.
-  pose proof (adv_toks _ _ _ _ Hst) as H1. pose proof (adv_toks _ _ _ _ H1) as H2. rewrite <- E1 in H2.
-  cbn [length] in Hg. destruct g as [|g]; [lia|].
-  assert (Hd2 : pbdepth (adv (adv st)) + N.of_nat lv' <= 99) by (rewrite !adv_depth; exact Hdep).
-  destruct (HPV mv false (qa k) D' g (adv (adv st)) tv_ nt r Hcv Hnmv (qa_ok k) ltac:(lia) Htv H2 Hnt Hd2) as (st2 & Hv & Hp2 & Hm2 & Hn2).
-  rewrite plitem_eq. cbv zeta.
-  rewrite (is_hd _ _ _ IDENTIFIER Hst), (is_hd _ _ _ NUMBER Hst), (peek1_hd _ _ _ _ Hst), (cur_hd _ _ _ Hst), Hak.
-  change (tkind_eqb ASSIGN ASSIGN) with true. rewrite !Bool.andb_true_r.
-  rewrite Hv. cbn [bind]. rewrite (nm0 _ _ Hcv). change (0 <? 0) with false. rewrite Bool.andb_false_r. cbn [N.to_nat repeat_warn].
-  assert (Hfin : forall key idk,
-            exists st5, (let st4 := match is_vstr mv with
-                                    | Some s => if idk && str_in key pattern_keys && negb (is STRING (adv (adv st)))
-                                                then warn (mkW 9 (tline tk_) (tcol tk_) key s [] []) st2 else st2
-                                    | None => st2
-                                    end in
-                         if idk && str_in key known_constructors && is STRING (adv (adv st))
-                         then warn (mkW 7 (tline tk_) (tcol tk_) key (match is_vstr mv with Some s => s | None => [] end) [] []) st4 else st4) = st5 /\
-                        ptoks st5 = nt :: r /\ moved4 0 st2 st5).
-  { intros key idk. cbv zeta.
-    set (st4 := match is_vstr mv return pstate with Some s => _ | None => _ end).
-    assert (H4 : ptoks st4 = nt :: r /\ moved4 0 st2 st4).
-    { subst st4. destruct (is_vstr mv); [destruct (_ && _ && _)|]; (split; [try rewrite warn_toks; exact Hp2|]); try apply moved4_refl.
-      apply moved4_warn. right; right; right; reflexivity. }
-    destruct H4 as [H4 M4]. clearbody st4.
-    destruct (idk && str_in key known_constructors && is STRING (adv (adv st))).
-    - eexists. split; [reflexivity|]. split; [rewrite warn_toks; exact H4|].
-      change 0%nat with (0 + 0)%nat. eapply moved4_trans; [exact M4|]. apply moved4_warn. right; right; left; reflexivity.
-    - exists st4. split; [reflexivity|]. split; assumption. }
-  assert (Hmv : forall st5, ptoks st5 = nt :: r -> moved4 0 st2 st5 -> moved4 (length (tk_ :: ta :: tv_)) st st5).
-  { intros st5 _ M5. replace (length (tk_ :: ta :: tv_)) with (1 + (1 + (length tv_ + 0)))%nat by (cbn [length]; lia).
-    eapply moved4_trans; [exact (moved4_adv _ _ _ _ Hst)|]. eapply moved4_trans; [exact (moved4_adv _ _ _ _ H1)|].
-    eapply moved4_trans; [exact Hm2|exact M5]. }
-  assert (Hnoc : noc (tk_ :: ta :: tv_)).
-  { destruct Hkm as [Hkk _]. apply noc_cons; [unfold id_sh in Hkk; destruct (idnum k); cbn [fst] in Hkk; rewrite Hkk; discriminate|].
-    apply noc_cons; [rewrite Hak; discriminate|exact Hn2]. }
-  destruct Hkm as [Hkk Hkv]. unfold id_sh in Hkk, Hkv. unfold key_ok in Hkey. destruct (idnum k); cbn [fst snd] in Hkk, Hkv.
-  - destruct (Hkey eq_refl) as (isf & Hnc). rewrite Hkk, Hkv, Hnc.
-    cbn [tkind_eqb tkind_code N.eqb Pos.eqb orb andb].
-    destruct (Hfin k false) as (st5 & E5 & Hp5 & M5). cbv zeta in E5. cbn [andb] in E5. cbv iota in E5. cbv zeta. cbv iota. rewrite E5.
-    exists st5. split; [reflexivity|]. split; [exact Hp5|]. split; [exact (Hmv st5 Hp5 M5)|exact Hnoc].
-  - rewrite Hkk. cbn [tkind_eqb tkind_code N.eqb Pos.eqb orb andb]. unfold text_of. rewrite Hkv.
-    destruct (Hfin k true) as (st5 & E5 & Hp5 & M5). cbv zeta in E5. cbn [andb] in E5. rewrite E5.
-    exists st5. split; [reflexivity|]. split; [exact Hp5|]. split; [exact (Hmv st5 Hp5 M5)|exact Hnoc].
-Qed.
-
-(* ---- the bracket body: parse_list_loop over items read by an abstract item reader ------------------------------------------------- *)
-Notation skip_sh := TokRound2.skip_sh.
-Lemma itk_facts k : itk k = true ->
-  kin k [NEWLINE; INDENT; COMMENT] = false /\ kin k [LIST_END; EOF; ENVELOPE_END] = false.
-Proof. destruct k; try discriminate; split; reflexivity. Qed.
-
-Lemma moved4_eq n m a b : moved4 n a b -> n = m -> moved4 m a b.
-Proof. intros H <-. exact H. Qed.
-Ltac lenarith := repeat (rewrite app_length || cbn [length]); lia.
-
-Definition at_depth (b : N) (st : pstate) : Prop := pbdepth st = b.
-
-Lemma plloop_gen b (ish : value -> list sh) (iok : value -> Prop) :
-  (forall x, iok x -> exists s rest, ish x = s :: rest /\ itk (fst s) = true) ->
-  (forall x g st tx nt r, iok x -> (2 * length tx + 2 <= g)%nat -> Forall2 tmatch tx (ish x) -> ptoks st = tx ++ nt :: r ->
-       after_scalar (tk nt) = true -> at_depth b st ->
-       exists st2, plitem g st = POk x st2 /\ ptoks st2 = nt :: r /\ moved4 (length tx) st st2 /\ noc tx) ->
-  forall pre2 postlast, skip_sh pre2 = true -> skip_sh postlast = true ->
-  forall items pre f acc st ts r, skip_sh pre = true -> Forall iok items -> (2 * length ts + 1 <= f)%nat ->
-    Forall2 tmatch ts (body_g pre2 postlast pre (map ish items)) -> r <> [] -> ptoks st = ts ++ r -> at_depth b st ->
-    exists st' tE ts0, plloop f acc st = POk (rev acc ++ items) st' /\ ts = ts0 ++ [tE] /\ tk tE = LIST_END /\
-                       ptoks st' = tE :: r /\ moved4 (length ts0) st st' /\ noc ts0.
-Proof.
-  intros Hfirst Hread pre2 postlast Hpre2 Hpl.
-  induction items as [|x xs IH]; intros pre f acc st ts r Hpre Hok Hf Hts Hr Hst Hdep.
-  - cbn [map body_g] in Hts. apply Forall2_app_inv_r in Hts. destruct Hts as (tsp & tse & Htsp & Htse & ->).
-    inversion Htse as [|tE ? ? ? [HEk _] Hnil]; subst. inversion Hnil; subst. cbn [fst] in HEk.
-    destruct f as [|f]; [lia|]. rewrite TokRound2.plloop_eq. cbv zeta.
-    rewrite <- app_assoc in Hst. cbn [app] in Hst.
-    pose proof (TokRound2.skip_toks _ _ Htsp Hpre) as Hsk.
-    destruct (skip_many [NEWLINE; INDENT; COMMENT] tsp st tE r (fuel_of st) Hst Hsk) as (st1 & Hs & Hp & Hm);
-      [rewrite HEk; reflexivity|exact (TokRound2.fuel_of_ge _ _ _ Hst)|].
-    rewrite Hs. clear Hs. unfold ck. rewrite (cur_hd _ _ _ Hp), HEk. cbn [kin existsb tkind_eqb tkind_code N.eqb Pos.eqb orb].
-    exists st1, tE, tsp. rewrite app_nil_r. split; [reflexivity|]. split; [reflexivity|]. split; [exact HEk|]. split; [exact Hp|].
-    split; [exact (moved_moved4 _ _ _ Hm)|exact (noc_skip _ Hsk)].
-  - inversion Hok as [|? ? Hx Hxs]; subst.
-    destruct (Hfirst x Hx) as (s0 & rest0 & Eish & Hitk).
-    cbn [map body_g] in Hts. apply Forall2_app_inv_r in Hts. destruct Hts as (tsp & ts1 & Htsp & Hts1 & ->).
-    apply Forall2_app_inv_r in Hts1. destruct Hts1 as (tx & ts2 & Htx & Hts2 & ->).
-    pose proof Htx as Htx'. rewrite Eish in Htx'. inversion Htx' as [|t0 ? tx' ? [Ht0 _] _]; subst. clear Htx'.
-    assert (Hk0 : itk (tk t0) = true) by (rewrite Ht0; exact Hitk). destruct (itk_facts _ Hk0) as [Hk1 Hk2].
-    rewrite !app_length in Hf. cbn [length] in Hf.
-    destruct f as [|f]; [lia|]. rewrite TokRound2.plloop_eq. cbv zeta.
-    rewrite <- !app_assoc in Hst. rewrite <- app_comm_cons in Hst.
-    pose proof (TokRound2.skip_toks _ _ Htsp Hpre) as Hsk.
-    destruct (skip_many [NEWLINE; INDENT; COMMENT] tsp st t0 (tx' ++ ts2 ++ r) (fuel_of st) Hst Hsk Hk1) as (st1 & Hs & Hp & Hm);
-      [exact (TokRound2.fuel_of_ge _ _ _ Hst)|].
-    rewrite Hs. clear Hs. unfold ck. rewrite (cur_hd _ _ _ Hp), Hk2.
-    pose proof (moved_moved4 _ _ _ Hm) as Hm1.
-    assert (Hd1 : at_depth b st1) by (unfold at_depth in *; destruct Hm1 as (_ & D & _); congruence).
-    destruct xs as [|y ys].
-    + (* last item *)
-      cbn [map] in Hts2. apply Forall2_app_inv_r in Hts2. destruct Hts2 as (tpl & tse & Htpl & Htse & ->).
-      inversion Htse as [|tE ? ? ? [HEk _] Hnil]; subst. inversion Hnil; subst. cbn [fst] in HEk.
-      rewrite !app_length in Hf. cbn [length] in Hf.
-      rewrite <- app_assoc in Hp. cbn [app] in Hp.
-      destruct tpl as [|tp tpl'].
-      * cbn [app] in Hp. rewrite app_comm_cons in Hp.
-        destruct (Hread x f st1 (t0 :: tx') tE r Hx ltac:(cbn [length] in *; lia) Htx Hp ltac:(rewrite HEk; reflexivity) Hd1) as (st2 & Hi & Hp2 & Hm2 & Hn2).
-        rewrite Hi. cbn [bind]. is_step Hp2 HEk.
-        exists st2, tE, (tsp ++ t0 :: tx'). cbn [rev]. rewrite <- !app_assoc. cbn [app].
-        split; [reflexivity|]. split; [reflexivity|]. split; [exact HEk|]. split; [exact Hp2|].
-        split; [eapply moved4_eq; [eapply moved4_trans; [exact Hm1|exact Hm2]|lenarith]|apply noc_app; [exact (noc_skip _ Hsk)|exact Hn2]].
-      * pose proof (TokRound2.skip_toks _ _ Htpl Hpl) as Fp. inversion Fp as [|? ? [Kp _] _]; subst.
-        cbn [app] in Hp. rewrite app_comm_cons in Hp.
-        destruct (Hread x f st1 (t0 :: tx') tp (tpl' ++ tE :: r) Hx ltac:(cbn [length] in *; lia) Htx Hp
-                    ltac:(destruct (tk tp); try discriminate Kp; reflexivity) Hd1) as (st2 & Hi & Hp2 & Hm2 & Hn2).
-        rewrite Hi. cbn [bind].
-        rewrite (is_hd _ _ _ COMMA Hp2), (is_hd _ _ _ LIST_END Hp2), (is_hd _ _ _ EOF Hp2).
-        assert (K2 : tkind_eqb (tk tp) COMMA = false /\ tkind_eqb (tk tp) LIST_END = false /\ tkind_eqb (tk tp) EOF = false)
-          by (destruct (tk tp); try discriminate Kp; repeat split).
-        destruct K2 as (-> & -> & ->).
-        assert (Hd2 : at_depth b st2) by (unfold at_depth in *; destruct Hm2 as (_ & D & _); congruence).
-        destruct (IH postlast f (x :: acc) st2 ((tp :: tpl') ++ [tE]) r Hpl (Forall_nil _)) as (st' & tE' & ts0 & Hl & Ets & HE' & Hp' & Hm' & Hn');
-          [rewrite app_length; cbn [length] in *; lia| |exact Hr|rewrite Hp2, <- app_assoc; reflexivity|exact Hd2|].
-        { cbn [map body_g]. apply Forall2_app; [exact Htpl|]. constructor; [split; [exact HEk|exact I]|constructor]. }
-        apply app_inj_tail in Ets. destruct Ets as [<- <-].
-        rewrite Hl. exists st', tE, (tsp ++ (t0 :: tx') ++ tp :: tpl'). cbn [rev]. rewrite <- !app_assoc. cbn [app].
-        split; [reflexivity|]. split; [first [reflexivity | (rewrite <- !app_assoc; reflexivity) | (rewrite !app_assoc; reflexivity)]|]. split; [exact HEk|]. split; [exact Hp'|].
-        split.
-        -- eapply moved4_eq; [eapply moved4_trans; [exact Hm1|]; eapply moved4_trans; [exact Hm2|exact Hm']|lenarith].
-        -- apply noc_app; [exact (noc_skip _ Hsk)|]. exact (noc_app (t0 :: tx') (tp :: tpl') Hn2 Hn').
-    + (* more items follow: COMMA *)
-      cbn [map] in Hts2. inversion Hts2 as [|tc ? ts3 ? [Hck _] Hts3]; subst. cbn [fst] in Hck.
-      cbn [length] in Hf.
-      cbn [app] in Hp. rewrite app_comm_cons in Hp.
-      destruct (Hread x f st1 (t0 :: tx') tc (ts3 ++ r) Hx ltac:(cbn [length] in *; lia) Htx Hp ltac:(rewrite Hck; reflexivity) Hd1) as (st2 & Hi & Hp2 & Hm2 & Hn2).
-      rewrite Hi. cbn [bind]. is_step Hp2 Hck.
-      assert (Hne : exists t3 r3, ts3 ++ r = t3 :: r3) by (destruct r; [congruence|]; destruct ts3; cbn [app]; eauto).
-      destruct Hne as (t3 & r3 & E3). rewrite E3 in Hp2. pose proof (adv_toks _ _ _ _ Hp2) as H3. rewrite <- E3 in H3.
-      assert (Hd3 : at_depth b (adv st2)) by (unfold at_depth in *; rewrite adv_depth; destruct Hm2 as (_ & D & _); congruence).
-      destruct (IH pre2 f (x :: acc) (adv st2) ts3 r Hpre2 Hxs) as (st' & tE & ts0 & Hl & Ets & HE & Hp' & Hm' & Hn');
-        [cbn [length] in *; lia|exact Hts3|exact Hr|exact H3|exact Hd3|].
-      rewrite Hl. subst ts3.
-      exists st', tE, (tsp ++ (t0 :: tx') ++ tc :: ts0). cbn [rev]. rewrite <- !app_assoc. cbn [app].
-      split; [reflexivity|]. split; [first [reflexivity | (rewrite <- !app_assoc; reflexivity) | (rewrite !app_assoc; reflexivity)]|]. split; [exact HE|]. split; [exact Hp'|].
-      split.
-      * eapply moved4_eq; [eapply moved4_trans; [exact Hm1|]; eapply moved4_trans; [exact Hm2|]; eapply moved4_trans; [exact (moved4_adv _ _ _ _ Hp2)|exact Hm']|lenarith].
-      * apply noc_app; [exact (noc_skip _ Hsk)|]. apply (noc_app (t0 :: tx') (tc :: ts0) Hn2). apply noc_cons; [rewrite Hck; discriminate|exact Hn'].
-Qed.
-
-(* ---- the value reader, by induction on the nesting budget ----------------------------------------------------------------------------- *)
-Lemma vsh3_noc q v t : is_scalar v = true -> tmatch t (vsh3 q v) -> noc [t].
-Proof.
-  intros Hs [Hk _]. apply noc_cons; [|apply noc_nil]. pose proof (vsh3_itk q v Hs) as K. rewrite <- Hk in K.
-  intros E. rewrite E in K. discriminate K.
-Qed.
-
-Theorem all_PV : forall lv, PV lv.
-Proof.
-  assert (Hscal : forall lv, forall v am q D f st ts nt r,
-            is_scalar v = true -> cv am lv v = true -> num_ok4 v -> (forall s, q s = QIdent -> has_annotation s = false) ->
-            (2 * length ts + 1 <= f)%nat -> Forall2 tmatch ts (val_sh4 q D v) -> ptoks st = ts ++ nt :: r -> after_scalar (tk nt) = true ->
-            exists st', pv f st = POk v st' /\ ptoks st' = nt :: r /\ moved4 (length ts) st st' /\ noc ts).
-  { intros lv v am q D f st ts nt r Hs _ Hnum Hq Hf Hts Hst Hnt. rewrite (val_sh4_scalar q D v Hs) in Hts.
-    inversion Hts as [|t ? ? ? Ht Hnil]; subst. inversion Hnil; subst. cbn [app] in Hst. destruct f as [|f]; [cbn in Hf; lia|].
-    assert (Hn : num_ok_v v) by (destruct v; cbn [is_scalar sval_of] in Hs; try discriminate Hs; exact Hnum).
-    rewrite (pv_scalar3 numcanon holo_ok strict sp f st t nt r q v Hst Hs Ht Hnt Hn Hq).
-    exists (adv st). split; [reflexivity|]. split; [exact (adv_toks _ _ _ _ Hst)|]. split; [exact (moved4_adv _ _ _ _ Hst)|exact (vsh3_noc q v t Hs Ht)]. }
-  induction lv as [|lv' IH]; intros v am q D f st ts nt r Hc Hnum Hq Hf Hts Hst Hnt Hdep.
-  - destruct v; cbn [cv] in Hc; try discriminate Hc; exact (Hscal 0%nat _ am q D f st ts nt r Hc Hc Hnum Hq Hf Hts Hst Hnt).
-  - destruct v as [|b|isf c|s|items| | | |]; try (cbn [cv] in Hc; try discriminate Hc; exact (Hscal (S lv') _ am q D f st ts nt r Hc Hc Hnum Hq Hf Hts Hst Hnt)).
-    rewrite cv_list in Hc. apply num_ok4_list in Hnum.
-    destruct (val_sh4_list ml idnum qa qi q D items) as (p2 & pl & p & D' & Hp2 & Hpl & Hp & Esh). rewrite Esh in Hts.
-    inversion Hts as [|tL ? tsb ? [HLk _] Hb]; subst. cbn [fst] in HLk. rewrite <- app_comm_cons in Hst.
-    cbn [length] in Hf. destruct f as [|[|f]]; try lia.
-    rewrite TokRound2.pv_list_eq; [|unfold ck; rewrite (cur_hd _ _ _ Hst); exact HLk].
-    rewrite TokRound2.plist_eq. cbv zeta. unfold expect. is_step Hst HLk. cbn [bind].
-    assert (Hne : exists t1 r1, tsb ++ nt :: r = t1 :: r1) by (destruct tsb; cbn [app]; eauto).
-    destruct Hne as (t1 & r1 & E1). rewrite E1 in Hst. pose proof (adv_toks _ _ _ _ Hst) as H1. rewrite <- E1 in H1.
-    rewrite adv_depth. set (b := pbdepth st) in *.
-    assert (Hmax : (max_nesting <=? b + 1) = false) by (apply N.leb_gt; unfold max_nesting; lia).
-    rewrite Hmax.
-    (* the deep-nesting record *)
-    set (st2 := set_depth (b + 1) (adv st)).
-    set (st3 := if (nesting_threshold <=? b + 1) && negb (memb (tline (cur st)) (pwarned st2)) then _ else st2).
-    assert (H3 : ptoks st3 = tsb ++ nt :: r /\ pbdepth st3 = b + 1 /\ ppos st3 = ppos st + 1 /\ wext4 st st3).
-    { pose proof (moved4_adv _ _ _ _ Hst) as (W1 & _ & P1).
-      subst st3. destruct (_ && _); cbn [warn ptoks pbdepth ppos set_depth st2].
-      - split; [exact H1|]. split; [reflexivity|]. split; [exact P1|].
-        eapply wext4_trans; [exact W1|]. exists [mkW 6 (tline (cur st)) (tcol (cur st)) [] [] [] [b + 1]]. split; [reflexivity|].
-        constructor; [right; left; reflexivity|constructor].
-      - subst st2. cbn [set_depth ptoks pbdepth ppos]. split; [exact H1|]. split; [reflexivity|]. split; [exact P1|].
-        destruct W1 as (l & E & F). exists l. split; [exact E|exact F]. }
-    clearbody st3. destruct H3 as (Hp3 & Hd3 & Hpos3 & W3).
-    destruct (plloop_gen (b + 1) (item_sh4 D') (fun x => item_ok am lv' x = true /\ num_ok4 x)) with
-      (pre2 := p2) (postlast := pl) (items := items) (pre := p) (f := f) (acc := @nil value) (st := st3) (ts := tsb) (r := nt :: r)
-      as (st4 & tE & ts0 & Hl & Ets & HEk & Hp4 & Hm4 & Hn4).
-    { intros x [Hx _]. exact (item_first am lv' D' x Hx). }
-    { intros x g st0 tx nt0 r0 [Hx Hnx] Hg Htx Hst0 Hnt0 Hd0. unfold at_depth in Hd0.
-      apply (item_read lv' IH am D' x g st0 tx nt0 r0 Hx Hnx Hg Htx Hst0 Hnt0). rewrite Hd0. lia. }
-    { exact Hp2. } { exact Hpl. } { exact Hp. }
-    { rewrite forallb_forall in Hc. rewrite Forall_forall in Hnum. apply Forall_forall. intros x Hin. split; [exact (Hc x Hin)|exact (Hnum x Hin)]. }
-    { pose proof (F2_length _ _ _ Hb) as HL. lia. }
-    { exact Hb. } { discriminate. } { exact Hp3. } { exact Hd3. }
-    rewrite Hl. cbn [bind rev app]. is_step Hp4 HEk. cbn [bind].
-    pose proof (adv_toks _ _ _ _ Hp4) as H5.
-    destruct Hm4 as (W4 & Hd4 & Hpos4).
-    pose proof (moved4_adv _ _ _ _ Hp4) as (W5 & Hd5 & Hpos5).
-    assert (Hslice : firstn (N.to_nat (ppos (set_depth (pbdepth st4 - 1) (adv st4)) - ppos st)) (ptoks st) = tL :: tsb).
-    { rewrite Hst. cbn [set_depth ppos]. rewrite Hpos5, Hpos4, Hpos3.
-      replace (N.to_nat (ppos st + 1 + N.of_nat (length ts0) + N.of_nat 1 - ppos st)) with (length (tL :: tsb)) by (subst tsb; cbn [length]; rewrite app_length; cbn [length]; lia).
-      rewrite <- E1. rewrite app_comm_cons. rewrite firstn_app, Nat.sub_diag, firstn_all. cbn [firstn]. apply app_nil_r. }
-    rewrite Hslice.
-    assert (Hnoc : noc (tL :: tsb)).
-    { apply noc_cons; [rewrite HLk; discriminate|]. subst tsb. apply noc_app; [exact Hn4|]. apply noc_cons; [rewrite HEk; discriminate|apply noc_nil]. }
-    assert (Hnc : try_holographic holo_ok (tL :: tsb) = None) by (unfold try_holographic; unfold noc in Hnoc; rewrite Hnoc; reflexivity).
-    rewrite Hnc.
-    eexists. split; [reflexivity|]. split; [rewrite set_depth_toks; exact H5|]. split; [|exact Hnoc].
-    unfold moved4. cbn [set_depth pwarns pbdepth ppos]. split.
-    + destruct W3 as (l3 & E3 & F3). destruct W4 as (l4 & E4 & F4). destruct W5 as (l5 & E5 & F5). unfold wext4. cbn [set_depth pwarns].
-      exists (l5 ++ l4 ++ l3). split; [rewrite E5, E4, E3, !app_assoc; reflexivity|]. apply Forall_app; split; [exact F5|]. apply Forall_app; split; assumption.
-    + split; [rewrite Hd4, Hd3; lia|]. rewrite Hpos5, Hpos4, Hpos3. subst tsb. cbn [length]. rewrite app_length. cbn [length]. lia.
-Qed.
-
-(* the value reader as used by parse_section and meta_loop: bracket depth 0, full nesting budget *)
-Definition after_val (k : tkind) : bool := kin k [NEWLINE; COMMENT].
-Lemma pv_cval4 v q D f st ts nt r :
-  cval4 v = true -> num_ok4 v -> (forall s, q s = QIdent -> has_annotation s = false) -> (2 * length ts + 1 <= f)%nat ->
-  Forall2 tmatch ts (val_sh4 q D v) -> ptoks st = ts ++ nt :: r -> after_val (tk nt) = true -> pbdepth st = 0 ->
-  exists st', pv f st = POk v st' /\ ptoks st' = nt :: r /\ moved4 (length ts) st st'.
-Proof.
-  intros Hc Hnum Hq Hf Hts Hst Hnt Hdep.
-  destruct (all_PV max_lists v true q D f st ts nt r Hc Hnum Hq Hf Hts Hst) as (st' & H1 & H2 & H3 & _);
-    [destruct (tk nt); try discriminate Hnt; reflexivity|rewrite Hdep; unfold max_lists; lia|].
-  exists st'. split; [exact H1|]. split; [exact H2|exact H3].
-Qed.
-
-(* ======== Part B: the loop / node / document lemmas of Rt/BareWordParse.v over the core4 value shapes =============================== *)
 Notation psec := (parse_section numcanon holo_ok strict sp alpha).
 Notation bloop := (block_loop numcanon holo_ok strict sp alpha).
 Notation sloop := (section_loop numcanon holo_ok strict sp alpha).
 Notation pmark := (parse_section_marker numcanon holo_ok strict sp alpha).
 Notation dloop := (doc_loop numcanon holo_ok strict sp alpha).
-Ltac sadv := repeat first [apply sext4_refl | apply sext4_adv | (eapply sext4_trans; [|apply sext4_adv])].
+Notation num_ok := (num_ok numcanon).
+Notation num_ok_v := (num_ok_v numcanon).
+Notation num_ok_val := (BareWordParse.num_ok_val numcanon).
+Notation val_sh5 := (val_sh5 ml qi).
+Notation val_mk5 := (val_mk5 ml qi).
+Notation main_sh5 := (main_sh5 ml idnum qa5 qi).
+Notation node_sh5 := (node_sh5 ml idnum qa5 qi).
+Notation nodes_sh5 := (nodes_sh5 ml idnum qa5 qi).
+Notation main_mk5 := (main_mk5 ml qa5 qi).
+Notation node_mk5 := (node_mk5 ml qa5 qi).
+Notation nodes_mk5 := (nodes_mk5 ml qa5 qi).
+Notation meta_sh5 := (meta_sh5 ml qm5 qi).
+Notation meta_mk5 := (meta_mk5 ml qm5 qi).
+Notation doc5_sh := (doc5_sh ml idnum qa5 qm5 qi).
+Notation doc5_mk := (doc5_mk ml qa5 qm5 qi).
+
+Ltac is_step H Hk :=
+  repeat rewrite (is_hd _ _ _ _ H); rewrite ?Hk;
+  cbn [tkind_eqb tkind_code N.eqb Pos.eqb orb andb negb kin existsb].
+
+(* ---- the value reader with receipts ------------------------------------------------------------------------------------------------------ *)
+Lemma pv_cval5 v spf D f st ts nt r :
+  cval v = true -> num_ok_val v -> (forall s, spell_ok s (spf s) = true) -> (length ts + 3 <= f)%nat ->
+  Forall2 tmatch ts (val_sh5 spf D v) -> ptoks st = ts ++ nt :: r -> after_val (tk nt) = true -> pbdepth st = 0 ->
+  exists st', pv f st = POk v st' /\ ptoks st' = nt :: r /\ sx st st' (E ts (val_mk5 spf D v)).
+Proof.
+  intros Hc Hnum Hsp Hf Hts Hst Hnt Hdep.
+  assert (Hnt' : after_scalar (tk nt) = true) by (destruct (tk nt); try discriminate Hnt; reflexivity).
+  assert (Hother : val_sh5 spf D v = val_sh3 ml qi qi D v -> val_mk5 spf D v = nomk (length (val_sh3 ml qi qi D v)) ->
+                   exists st', pv f st = POk v st' /\ ptoks st' = nt :: r /\ sx st st' (E ts (val_mk5 spf D v))).
+  { intros Esh Emk. rewrite Esh in Hts. rewrite Emk, E_nomk.
+    destruct (BareWordParse.pv_cval numcanon holo_ok strict sp ml qi qi_ok v qi D f st ts nt r Hc Hnum qi_ok Hf Hts Hst Hnt Hdep) as (st' & Hv & Hp & Hm).
+    exists st'. split; [exact Hv|]. split; [exact Hp|]. apply sx_of_sext. exact (TokRound2.moved_sext _ _ _ Hm). }
+  destruct v as [|b|isf c|s|items| | | |]; try (apply Hother; reflexivity).
+  clear Hother. cbn [MultiWord.val_sh5 MultiWord.val_mk5] in Hts |- *. specialize (Hsp s). destruct (spf s) as [q|w1 ws]; cbn [sp_sh sp_mk] in Hts |- *.
+  - inversion Hts as [|t ? ? ? [Hk Hv] Hnil]; subst. inversion Hnil; subst. cbn [fst snd] in Hk, Hv. cbn [app] in Hst.
+    destruct f as [|f]; [cbn in Hf; lia|]. cbn [E app].
+    assert (Hpv : pv (S f) st = POk (VStr s) (adv st)).
+    { destruct q.
+      - exact (BareWordParse.pv_scalar2 numcanon holo_ok strict sp f st t nt r (SStr s) Hst (conj Hk Hv) Hnt' I).
+      - cbn [spell_ok] in Hsp. apply Bool.negb_true_iff in Hsp. exact (BareWordParse.pv_bare numcanon holo_ok strict sp f st t nt r s Hst Hk Hv Hnt' Hsp).
+      - exact (BareWordParse.pv_var numcanon holo_ok strict sp f st t nt r s Hst Hk Hv Hnt'). }
+    exists (adv st). split; [exact Hpv|]. split; [exact (adv_toks _ _ _ _ Hst)|]. apply sx_of_sext. apply sext_adv.
+  - cbn [spell_ok] in Hsp. unfold multi_ok in Hsp. apply andb_prop in Hsp. destruct Hsp as [Hsp Hjoin]. apply andb_prop in Hsp. destruct Hsp as [Hsp Hws].
+    apply andb_prop in Hsp. destruct Hsp as [Ha Hne]. apply Bool.negb_true_iff in Ha. apply str_eqb_eq in Hjoin.
+    inversion Hts as [|t1 ? tws ? Ht1 Htws]; subst ts. rewrite <- app_comm_cons in Hst.
+    destruct f as [|f]; [cbn in Hf; lia|].
+    destruct (pv_multi numcanon holo_ok strict sp f st w1 ws t1 tws nt r Hst Ht1 Ha) as (st' & Hpv & Hp & Hw & Hd & _);
+      [destruct ws; [discriminate Hne|discriminate]|exact Htws|exact Hws|exact (after_scalar_stop _ Hnt')|].
+    rewrite Hjoin in Hpv. exists st'. split; [exact Hpv|]. split; [exact Hp|].
+    cbn [E]. rewrite E_nomk, app_nil_r. split; [|exact Hd].
+    exists [mw_rec (w1 :: texts ws) t1]. split; [exact Hw|]. split; [constructor; [left; reflexivity|constructor]|reflexivity].
+Qed.
+
+(* ======== the loop / node / document lemmas of Rt/BareWordParse.v over the spelled shapes, with the receipts threaded ================== *)
+Ltac sadv := repeat first [apply sext_refl | apply sext_adv | (eapply sext_trans; [|apply sext_adv])].
+
+Lemma E_node_S d c tl tI tm : length tl = length (lead_sh (S d) (lead_of c)) ->
+  E (tl ++ tI :: tm) (node_mk5 (S d) c) = E tm (main_mk5 (S d) c).
+Proof.
+  intros Hl. unfold MultiWord.node_mk5. change (tl ++ tI :: tm) with (tl ++ [tI] ++ tm). rewrite app_assoc.
+  apply E_skip. rewrite app_length, Hl. reflexivity.
+Qed.
+Lemma E_nodes_S d c cs tl tI tm ts2 : length tl = length (lead_sh (S d) (lead_of c)) -> length tm = length (main_mk5 (S d) c) ->
+  E ((tl ++ tI :: tm) ++ ts2) (nodes_mk5 (S d) (c :: cs)) = E tm (main_mk5 (S d) c) ++ E ts2 (nodes_mk5 (S d) cs).
+Proof.
+  intros Hl Hm. cbn [MultiWord.nodes_mk5 flat_map]. rewrite E_app.
+  - rewrite (E_node_S d c tl tI tm Hl). reflexivity.
+  - unfold MultiWord.node_mk5. rewrite !app_length, nomk_len, Hl. cbn [indent_sh length]. lia.
+Qed.
 
 Lemma psec_assign_eq f leading st :
   is SECTION st = false -> is IDENTIFIER st = true -> is LIST_START (adv st) = false ->
@@ -630,13 +475,13 @@ Lemma psec_assign_eq f leading st :
 Proof. intros H1 H2 H3 H4 H5. cbn [parse_section]. rewrite H1, H2, H3. cbn [negb]. rewrite H4, H5. reflexivity. Qed.
 
 Lemma psec_assign2 f leading st ts rest k v l0 trl D :
-  cval4 v = true -> num_ok4 v -> opt_ne trl = true ->
-  Forall2 tmatch ts (main_sh4 ml idnum qa qi D (NAssign k v l0 trl)) -> ptoks st = ts ++ rest -> pbdepth st = 0 ->
+  cval v = true -> num_ok_val v -> opt_ne trl = true ->
+  Forall2 tmatch ts (main_sh5 D (NAssign k v l0 trl)) -> ptoks st = ts ++ rest -> pbdepth st = 0 ->
   exists st' tn, psec (S f) leading st = POk (Some (NAssign k v leading trl)) st' /\ ptoks st' = tn :: rest /\
-                 tk tn = NEWLINE /\ sext4 st st'.
+                 tk tn = NEWLINE /\ sx st st' (E ts (main_mk5 D (NAssign k v l0 trl))).
 Proof.
   intros Hc Hnum Htr Hts Hst Hdep.
-  cbn [main_sh4] in Hts. cbn [app] in Hts.
+  cbn [MultiWord.main_sh5] in Hts. cbn [app] in Hts.
   inversion Hts as [|ti ? ? ? [Hik Hiv] Hts1]; subst. inversion Hts1 as [|ta ? ts2 ? [Hak _] Hts2]; subst.
   cbn [fst snd] in Hik, Hiv, Hak.
   apply Forall2_app_inv_r in Hts2. destruct Hts2 as (tsv & ts3 & Htsv & Hts3 & ->).
@@ -655,22 +500,25 @@ Proof.
   cbv zeta. rewrite (cur_hd _ _ _ Hst).
   assert (Hk : text_of ti = k) by (unfold text_of; rewrite Hiv; reflexivity). rewrite !Hk.
   assert (Hd2 : pbdepth (adv (adv st)) = 0) by (rewrite !adv_depth; exact Hdep).
-  assert (W2 : sext4 st (adv (adv st))) by sadv.
+  assert (W2 : sext st (adv (adv st))) by sadv.
   (* what follows the value *)
   assert (Hnt : exists nt r2, tst ++ tn :: rest = nt :: r2 /\ after_val (tk nt) = true).
   { destruct trl as [c|]; cbn [trail_sh] in Htst.
     - inversion Htst as [|tc ? ? ? [Hck _] Hnil']; subst. inversion Hnil'; subst. exists tc, (tn :: rest). split; [reflexivity|]. rewrite Hck. reflexivity.
     - inversion Htst; subst. exists tn, rest. split; [reflexivity|]. rewrite Hnk. reflexivity. }
   destruct Hnt as (nt & r2 & E2 & Hnt). rewrite E2 in H2.
-  destruct (pv_cval4 v (qa k) D (fuel_of (adv (adv st)) + fuel_of (adv (adv st)) + fuel_of (adv (adv st)))%nat (adv (adv st)) tsv nt r2 Hc Hnum (qa_ok k))
+  destruct (pv_cval5 v (qa5 k) D (fuel_of (adv (adv st)) + fuel_of (adv (adv st)) + fuel_of (adv (adv st)))%nat (adv (adv st)) tsv nt r2 Hc Hnum (qa5_ok k))
     as (st5 & Hv & Hp5 & Hm5); [rewrite (fuel_of_toks _ _ H2), app_length; lia|exact Htsv|exact H2|exact Hnt|exact Hd2|].
   rewrite Hv. cbn [bind].
   set (st6 := match is_vstr v with Some s => _ | None => _ end).
   assert (H6 : ptoks st6 = nt :: r2).
   { subst st6. destruct (is_vstr v); [destruct (_ && _)|]; [rewrite warn_toks| |]; exact Hp5. }
-  assert (W6 : sext4 st st6).
-  { eapply sext4_trans; [exact W2|]. eapply sext4_trans; [exact (moved4_sext4 _ _ _ Hm5)|].
-    subst st6. destruct (is_vstr v); [destruct (_ && _)|]; try apply sext4_refl. apply sext4_warn; right; right; right; reflexivity. }
+  assert (W6 : sx st st6 (E tsv (val_mk5 (qa5 k) D v))).
+  { eapply sx_pre; [exact W2|]. eapply sx_post; [exact Hm5|].
+    subst st6. destruct (is_vstr v); [destruct (_ && _)|]; try apply sext_refl. apply sext_warn; right; reflexivity. }
+  assert (HE : forall tst0, E tsv (val_mk5 (qa5 k) D v) = E (ti :: ta :: tsv ++ tst0 ++ [tn]) (main_mk5 D (NAssign k v l0 trl))).
+  { intros tst0. symmetry. cbn [MultiWord.main_mk5]. change (nomk 2) with [@None (list str); None]. cbn [app E].
+    rewrite E_app by (rewrite val_mk5_len; exact (F2_length _ _ _ Htsv)). rewrite <- nomk_app, E_nomk, app_nil_r. reflexivity. }
   clearbody st6.
   destruct trl as [c|]; cbn [trail_sh] in Htst.
   - inversion Htst as [|tc ? ? ? [Hck Hcv] Hnil']; subst. inversion Hnil'; subst. cbn [fst snd] in Hck, Hcv.
@@ -678,10 +526,10 @@ Proof.
     is_step H6 Hck. rewrite (cur_hd _ _ _ H6).
     assert (Hc' : text_of tc = c) by (unfold text_of; rewrite Hcv; reflexivity). rewrite Hc'.
     exists (adv st6), tn. split; [reflexivity|]. split; [exact (adv_toks _ _ _ _ H6)|]. split; [exact Hnk|].
-    eapply sext4_trans; [exact W6|apply sext4_adv].
+    eapply sx_eq; [eapply sx_post; [exact W6|apply sext_adv]|exact (HE [tc])].
   - inversion Htst; subst. cbn [app] in E2. inversion E2; subst nt r2.
     is_step H6 Hnk.
-    exists st6, tn. split; [reflexivity|]. split; [exact H6|]. split; [exact Hnk|exact W6].
+    exists st6, tn. split; [reflexivity|]. split; [exact H6|]. split; [exact Hnk|eapply sx_eq; [exact W6|exact (HE [])]].
 Qed.
 
 (* ---- loops: one-step equations ---------------------------------------------------------------------------------------- *)
@@ -782,10 +630,10 @@ Proof. unfold lead_sh. cbn [flat_map]. rewrite <- app_assoc. reflexivity. Qed.
 Lemma bloop_lead d cs : forall pending cli f acc dups st ts rest,
   Forall2 tmatch ts (lead_sh (S d) cs) -> ptoks st = ts ++ rest -> rest <> [] ->
   exists st' cli', bloop (3 * length cs + f) (ind_count (S d)) cli pending acc dups st =
-                   bloop f (ind_count (S d)) cli' (pending ++ cs) acc dups st' /\ ptoks st' = rest /\ sext4 st st'.
+                   bloop f (ind_count (S d)) cli' (pending ++ cs) acc dups st' /\ ptoks st' = rest /\ sext st st'.
 Proof.
   induction cs as [|c cs IH]; intros pending cli f acc dups st ts rest Hts Hst Hr.
-  - inversion Hts; subst. cbn [app] in Hst. exists st, cli. rewrite app_nil_r. split; [reflexivity|]. split; [exact Hst|apply sext4_refl].
+  - inversion Hts; subst. cbn [app] in Hst. exists st, cli. rewrite app_nil_r. split; [reflexivity|]. split; [exact Hst|apply sext_refl].
   - rewrite lead_sh_cons in Hts. cbn [indent_sh app] in Hts.
     inversion Hts as [|tI ? ? ? [HIk HIv] Hts1]; subst. inversion Hts1 as [|tC ? ? ? [HCk HCv] Hts2]; subst.
     inversion Hts2 as [|tN ? ts3 ? [HNk _] Hts3]; subst. cbn [fst snd] in HIk, HIv, HCk, HCv, HNk.
@@ -803,16 +651,16 @@ Proof.
     pose proof (adv_toks _ _ _ _ H2) as H3. rewrite <- E1 in H3.
     destruct (IH (pending ++ [c]) 0 f acc dups (adv (adv (adv st))) ts3 rest Hts3 H3 Hr) as (st' & cli' & He & Hp & W).
     exists st', cli'. rewrite He, <- app_assoc. split; [reflexivity|]. split; [exact Hp|].
-    eapply sext4_trans; [|exact W]. sadv.
+    eapply sext_trans; [|exact W]. sadv.
 Qed.
 
 Lemma sloop_lead d cs : forall pending cli f acc dups st ts rest,
   Forall2 tmatch ts (lead_sh (S d) cs) -> ptoks st = ts ++ rest -> rest <> [] ->
   exists st' cli', sloop (3 * length cs + f) (ind_count (S d)) cli pending acc dups st =
-                   sloop f (ind_count (S d)) cli' (pending ++ cs) acc dups st' /\ ptoks st' = rest /\ sext4 st st'.
+                   sloop f (ind_count (S d)) cli' (pending ++ cs) acc dups st' /\ ptoks st' = rest /\ sext st st'.
 Proof.
   induction cs as [|c cs IH]; intros pending cli f acc dups st ts rest Hts Hst Hr.
-  - inversion Hts; subst. cbn [app] in Hst. exists st, cli. rewrite app_nil_r. split; [reflexivity|]. split; [exact Hst|apply sext4_refl].
+  - inversion Hts; subst. cbn [app] in Hst. exists st, cli. rewrite app_nil_r. split; [reflexivity|]. split; [exact Hst|apply sext_refl].
   - rewrite lead_sh_cons in Hts. cbn [indent_sh app] in Hts.
     inversion Hts as [|tI ? ? ? [HIk HIv] Hts1]; subst. inversion Hts1 as [|tC ? ? ? [HCk HCv] Hts2]; subst.
     inversion Hts2 as [|tN ? ts3 ? [HNk _] Hts3]; subst. cbn [fst snd] in HIk, HIv, HCk, HCv, HNk.
@@ -830,15 +678,15 @@ Proof.
     pose proof (adv_toks _ _ _ _ H2) as H3. rewrite <- E1 in H3.
     destruct (IH (pending ++ [c]) 0 f acc dups (adv (adv (adv st))) ts3 rest Hts3 H3 Hr) as (st' & cli' & He & Hp & W).
     exists st', cli'. rewrite He, <- app_assoc. split; [reflexivity|]. split; [exact Hp|].
-    eapply sext4_trans; [|exact W]. sadv.
+    eapply sext_trans; [|exact W]. sadv.
 Qed.
 
 Lemma dloop_lead cs : forall pending f acc dups st ts rest,
   Forall2 tmatch ts (lead_sh 0 cs) -> ptoks st = ts ++ rest -> rest <> [] ->
-  exists st', dloop (2 * length cs + f) pending acc dups st = dloop f (pending ++ cs) acc dups st' /\ ptoks st' = rest /\ sext4 st st'.
+  exists st', dloop (2 * length cs + f) pending acc dups st = dloop f (pending ++ cs) acc dups st' /\ ptoks st' = rest /\ sext st st'.
 Proof.
   induction cs as [|c cs IH]; intros pending f acc dups st ts rest Hts Hst Hr.
-  - inversion Hts; subst. cbn [app] in Hst. exists st. rewrite app_nil_r. split; [reflexivity|]. split; [exact Hst|apply sext4_refl].
+  - inversion Hts; subst. cbn [app] in Hst. exists st. rewrite app_nil_r. split; [reflexivity|]. split; [exact Hst|apply sext_refl].
   - rewrite lead_sh_cons in Hts. cbn [indent_sh app] in Hts.
     inversion Hts as [|tC ? ? ? [HCk HCv] Hts2]; subst.
     inversion Hts2 as [|tN ? ts3 ? [HNk _] Hts3]; subst. cbn [fst snd] in HCk, HCv, HNk.
@@ -853,24 +701,24 @@ Proof.
     pose proof (adv_toks _ _ _ _ H2) as H3. rewrite <- E1 in H3.
     destruct (IH (pending ++ [c]) f acc dups (adv (adv st)) ts3 rest Hts3 H3 Hr) as (st' & He & Hp & W).
     exists st'. rewrite He, <- app_assoc. split; [reflexivity|]. split; [exact Hp|].
-    eapply sext4_trans; [|exact W]. sadv.
+    eapply sext_trans; [|exact W]. sadv.
 Qed.
 
 (* ---- oracle side conditions, fuel measure ------------------------------------------------------------------------------- *)
 (* a section id that reaches the parser as a NUMBER token is read back through the number oracle *)
 Definition id_ok (i : str) : Prop := idnum i = true -> exists isf, numcanon i = Some (isf, i).
-Fixpoint nums_ok4 (n : node) : Prop :=
+Fixpoint nums_ok2 (n : node) : Prop :=
   match n with
-  | NAssign _ v _ _ => num_ok4 v
-  | NBlock _ _ ch _ => (fix go (l : list node) : Prop := match l with [] => True | c :: r => nums_ok4 c /\ go r end) ch
+  | NAssign _ v _ _ => num_ok_val v
+  | NBlock _ _ ch _ => (fix go (l : list node) : Prop := match l with [] => True | c :: r => nums_ok2 c /\ go r end) ch
   | NSection i _ _ ch _ =>
-      id_ok i /\ (fix go (l : list node) : Prop := match l with [] => True | c :: r => nums_ok4 c /\ go r end) ch
+      id_ok i /\ (fix go (l : list node) : Prop := match l with [] => True | c :: r => nums_ok2 c /\ go r end) ch
   | NComment _ => True
   end.
-Fixpoint nums_ok4_l (l : list node) : Prop := match l with [] => True | c :: r => nums_ok4 c /\ nums_ok4_l r end.
-Lemma nums_ok4_block k t ch l : nums_ok4 (NBlock k t ch l) = nums_ok4_l ch.
-Proof. cbn [nums_ok4]. induction ch as [|c r IH]; [reflexivity|]. cbn [nums_ok4_l]. rewrite <- IH. reflexivity. Qed.
-Lemma nums_ok4_section i k a ch l : nums_ok4 (NSection i k a ch l) = (id_ok i /\ nums_ok4_l ch).
+Fixpoint nums_ok2_l (l : list node) : Prop := match l with [] => True | c :: r => nums_ok2 c /\ nums_ok2_l r end.
+Lemma nums_ok2_block k t ch l : nums_ok2 (NBlock k t ch l) = nums_ok2_l ch.
+Proof. cbn [nums_ok2]. induction ch as [|c r IH]; [reflexivity|]. cbn [nums_ok2_l]. rewrite <- IH. reflexivity. Qed.
+Lemma nums_ok2_section i k a ch l : nums_ok2 (NSection i k a ch l) = (id_ok i /\ nums_ok2_l ch).
 Proof. reflexivity. Qed.
 
 Fixpoint sz2 (n : node) : nat :=
@@ -903,37 +751,37 @@ Proof. destruct n; reflexivity. Qed.
 (* the statement proved by nested induction: parse_section, started on the node's first own token with the pending
    comments `leading`, returns the node carrying `leading` *)
 Definition P_node2 (n : node) : Prop :=
-  core4_node n = true -> nums_ok4 n ->
+  core2_node n = true -> nums_ok2 n ->
   forall D f leading st ts rest,
     (sz2 n <= f)%nat ->
-    Forall2 tmatch ts (main_sh4 ml idnum qa qi D n) ->
+    Forall2 tmatch ts (main_sh5 D n) ->
     ptoks st = ts ++ rest -> pbdepth st = 0 ->
     (is_container n = true -> ends_block (ind_count (S D)) rest) ->
     exists st' tail, psec f leading st = POk (Some (set_lead n leading)) st' /\ ptoks st' = tail ++ rest /\
-                     tail_ok n tail /\ sext4 st st'.
+                     tail_ok n tail /\ sx st st' (E ts (main_mk5 D n)).
 
 Lemma node_sh2_first D c : exists body,
-  node_sh4 ml idnum qa qi (S D) c = (INDENT, Some (TVCount (ind_count (S D)))) :: body.
+  node_sh5 (S D) c = (INDENT, Some (TVCount (ind_count (S D)))) :: body.
 Proof.
-  unfold node_sh4. destruct (lead_of c) as [|x xs].
+  unfold MultiWord.node_sh5. destruct (lead_of c) as [|x xs].
   - cbn [lead_sh flat_map indent_sh app]. eexists. reflexivity.
   - rewrite lead_sh_cons. cbn [indent_sh app]. eexists. reflexivity.
 Qed.
 
-Lemma main_first n D : core4_node n = true ->
-  exists s body, main_sh4 ml idnum qa qi D n = s :: body /\ (fst s = IDENTIFIER \/ fst s = SECTION).
+Lemma main_first n D : core2_node n = true ->
+  exists s body, main_sh5 D n = s :: body /\ (fst s = IDENTIFIER \/ fst s = SECTION).
 Proof.
-  destruct n; cbn [core4_node]; try discriminate; intros _; cbn [main_sh4 app]; eexists; eexists; (split; [reflexivity|]); cbn [fst]; auto.
+  destruct n; cbn [core2_node]; try discriminate; intros _; cbn [MultiWord.main_sh5 app]; eexists; eexists; (split; [reflexivity|]); cbn [fst]; auto.
 Qed.
 
 (* what follows a child at depth S d: the next sibling (its first token is INDENT(2(S d))) or the end of the block *)
 Lemma ends_after_child d cs ts2 rest :
-  Forall2 tmatch ts2 (nodes_sh4 ml idnum qa qi (S d) cs) -> ends_block (ind_count (S d)) rest ->
+  Forall2 tmatch ts2 (nodes_sh5 (S d) cs) -> ends_block (ind_count (S d)) rest ->
   ends_block (ind_count (S (S d))) (ts2 ++ rest).
 Proof.
   intros Hts2 Hend. destruct cs as [|c2 cs'].
   - inversion Hts2; subst. cbn [app]. eapply (ends_block_mono sp alpha); [|exact Hend]. rewrite (ind_count_S (S d)). lia.
-  - cbn [nodes_sh4 flat_map] in Hts2. apply Forall2_app_inv_r in Hts2. destruct Hts2 as (u1 & u2 & Hu1 & _ & ->).
+  - cbn [MultiWord.nodes_sh5 flat_map] in Hts2. apply Forall2_app_inv_r in Hts2. destruct Hts2 as (u1 & u2 & Hu1 & _ & ->).
     destruct (node_sh2_first d c2) as (body2 & Hsh2). rewrite Hsh2 in Hu1.
     inversion Hu1 as [|tJ ? ? ? [HJk HJv] _]; subst. cbn [fst snd] in HJk, HJv.
     cbn [app ends_block]. unfold ends_blockb. rewrite HJk. unfold count_of. rewrite HJv.
@@ -942,16 +790,18 @@ Proof.
     rewrite Hlt. reflexivity.
 Qed.
 
+Lemma sext_depth0 st st' : sext st st' -> pbdepth st = 0 -> pbdepth st' = 0.
+Proof. intros [_ H] H0. congruence. Qed.
 
 Lemma bloop_children2 ch :
-  Forall P_node2 ch -> forallb core4_node ch = true -> nums_ok4_l ch ->
+  Forall P_node2 ch -> forallb core2_node ch = true -> nums_ok2_l ch ->
   forall d f cli acc dups st ts rest,
     (lsz2 ch <= f)%nat ->
-    Forall2 tmatch ts (nodes_sh4 ml idnum qa qi (S d) ch) ->
+    Forall2 tmatch ts (nodes_sh5 (S d) ch) ->
     ptoks st = ts ++ rest -> pbdepth st = 0 ->
     ends_block (ind_count (S d)) rest ->
     (ch = [] -> cli = 0) ->
-    exists st', bloop f (ind_count (S d)) cli [] acc dups st = POk (rev acc ++ ch) st' /\ ptoks st' = rest /\ sext4 st st'.
+    exists st', bloop f (ind_count (S d)) cli [] acc dups st = POk (rev acc ++ ch) st' /\ ptoks st' = rest /\ sx st st' (E ts (nodes_mk5 (S d) ch)).
 Proof.
   induction ch as [|c cs IHl]; intros HP Hcore Hnum d f cli acc dups st ts rest Hf Hts Hst Hdep Hend Hcli.
   - inversion Hts; subst ts. cbn [app] in Hst. destruct rest as [|t r]; [destruct Hend|].
@@ -961,13 +811,13 @@ Proof.
     assert (H0 : (0 <? ind_count (S d)) = true) by (apply N.ltb_lt; unfold ind_count; lia).
     rewrite H0.
     destruct (tk t); cbn in Hend |- *; rewrite ?app_nil_r; try discriminate Hend;
-      rewrite ?Bool.orb_false_r in Hend; rewrite ?Hend; eexists; (split; [reflexivity|split; [exact Hst|apply sext4_refl]]).
+      rewrite ?Bool.orb_false_r in Hend; rewrite ?Hend; eexists; (split; [reflexivity|split; [exact Hst|apply sx_of_sext; apply sext_refl]]).
   - inversion HP as [|? ? HPc HPcs]; subst.
     cbn [forallb] in Hcore. apply andb_prop in Hcore. destruct Hcore as [Hcc Hccs].
     destruct Hnum as [Hnc Hncs].
-    cbn [nodes_sh4 flat_map] in Hts. apply Forall2_app_inv_r in Hts.
+    cbn [MultiWord.nodes_sh5 flat_map] in Hts. apply Forall2_app_inv_r in Hts.
     destruct Hts as (ts1 & ts2 & Hts1 & Hts2 & ->).
-    unfold node_sh4 in Hts1. apply Forall2_app_inv_r in Hts1. destruct Hts1 as (tl & ts1' & Htl & Hts1' & ->).
+    unfold MultiWord.node_sh5 in Hts1. apply Forall2_app_inv_r in Hts1. destruct Hts1 as (tl & ts1' & Htl & Hts1' & ->).
     cbn [indent_sh app] in Hts1'. inversion Hts1' as [|tI ? tm ? [HIk HIv] Htm]; subst. cbn [fst snd] in HIk, HIv.
     destruct (main_first c (S d) Hcc) as (s0 & body & Emain & Hs0). pose proof Htm as Htm'. rewrite Emain in Htm'.
     inversion Htm' as [|tb ? tm' ? [Hbk _] _]; subst. clear Htm'.
@@ -979,7 +829,7 @@ Proof.
     destruct (bloop_lead d (lead_of c) [] cli f1 acc dups st tl (tI :: (tb :: tm') ++ ts2 ++ rest) Htl Hst) as (sta & cla & Ea & Hpa & Wa);
       [discriminate|].
     rewrite Ea. cbn [app] in Hpa |- *. clear Ea.
-    pose proof (sext4_depth0 _ _ Wa Hdep) as Hda.
+    pose proof (sext_depth0 _ _ Wa Hdep) as Hda.
     (* the INDENT of the header line *)
     destruct f1 as [|f1]; [lia|]. rewrite bloop_eq. cbv zeta.
     is_step Hpa HIk. rewrite (cur_hd _ _ _ Hpa).
@@ -1002,14 +852,16 @@ Proof.
     set (dl := match node_key_line c (tline (cur (adv sta))) with Some (k, l) => track_dup k l dups st1 | None => (dups, st1) end).
     assert (Hdl : ptoks (snd dl) = tail ++ ts2 ++ rest).
     { subst dl. destruct (node_key_line c _) as [[k l]|]; [rewrite track_dup_toks|]; exact Hst1. }
-    assert (Wdl : sext4 st (snd dl)).
-    { eapply sext4_trans; [exact Wa|]. eapply sext4_trans; [apply sext4_adv|]. eapply sext4_trans; [exact W1|].
-      subst dl. destruct (node_key_line c _) as [[k l]|]; [apply sext4_track_dup|apply sext4_refl]. }
+    assert (Wdl : sx st (snd dl) (E (tb :: tm') (main_mk5 (S d) c))).
+    { eapply sx_pre; [exact Wa|]. eapply sx_pre; [apply sext_adv|]. eapply sx_post; [exact W1|].
+      subst dl. destruct (node_key_line c _) as [[k l]|]; [apply sext_track_dup|apply sext_refl]. }
+    assert (HE : E (tb :: tm') (main_mk5 (S d) c) ++ E ts2 (nodes_mk5 (S d) cs) = E ((tl ++ tI :: tb :: tm') ++ ts2) (nodes_mk5 (S d) (c :: cs))).
+    { symmetry. apply E_nodes_S; [exact (F2_length _ _ _ Htl)|rewrite (main_mk5_len ml idnum qa5 qi); exact (F2_length _ _ _ Htm)]. }
     destruct dl as [dups' st2] eqn:Edl. cbn [snd] in Hdl, Wdl.
-    pose proof (sext4_depth0 _ _ Wdl Hdep) as Hd2.
+    pose proof (sx_depth0 _ _ _ Wdl Hdep) as Hd2.
     assert (Hrest : exists t0 r0, ts2 ++ rest = t0 :: r0).
     { destruct rest as [|t0 r0]; [destruct Hend|]. destruct ts2; cbn [app]; eauto. }
-    destruct c as [k v lead tr|k tg chn lead|i k a chn lead|]; cbn [core4_node] in Hcc; try discriminate Hcc.
+    destruct c as [k v lead tr|k tg chn lead|i k a chn lead|]; cbn [core2_node] in Hcc; try discriminate Hcc.
     + (* assignment: one more iteration for its NEWLINE *)
       destruct Htail as (tn & -> & Htn). cbn [app] in Hdl.
       destruct Hrest as (t0 & r0 & Hr). rewrite Hr in Hdl.
@@ -1017,29 +869,29 @@ Proof.
       pose proof (adv_toks _ _ _ _ Hdl) as H2. rewrite <- Hr in H2.
       destruct (IHl HPcs Hccs Hncs d f1 0 (NAssign k v lead tr :: acc) dups' (adv st2) ts2 rest) as (st' & Hl & Hst' & W');
         [cbn [sz2] in Hf1; lia|exact Hts2|exact H2|rewrite adv_depth; exact Hd2|exact Hend|reflexivity|].
-      exists st'. split; [|split; [exact Hst'|eapply sext4_trans; [exact Wdl|eapply sext4_trans; [apply sext4_adv|exact W']]]].
+      exists st'. split; [|split; [exact Hst'|eapply sx_eq; [eapply sx_trans; [exact Wdl|eapply sx_pre; [apply sext_adv|exact W']]|exact HE]]].
       rewrite Hl. cbn [rev]. rewrite <- app_assoc. reflexivity.
     + cbn [tail_ok] in Htail. subst tail. cbn [app] in Hdl.
       destruct (IHl HPcs Hccs Hncs d f1 0 (NBlock k tg chn lead :: acc) dups' st2 ts2 rest) as (st' & Hl & Hst' & W');
         [lia|exact Hts2|exact Hdl|exact Hd2|exact Hend|reflexivity|].
-      exists st'. split; [|split; [exact Hst'|eapply sext4_trans; [exact Wdl|exact W']]].
+      exists st'. split; [|split; [exact Hst'|eapply sx_eq; [eapply sx_trans; [exact Wdl|exact W']|exact HE]]].
       rewrite Hl. cbn [rev]. rewrite <- app_assoc. reflexivity.
     + cbn [tail_ok] in Htail. subst tail. cbn [app] in Hdl.
       destruct (IHl HPcs Hccs Hncs d f1 0 (NSection i k a chn lead :: acc) dups' st2 ts2 rest) as (st' & Hl & Hst' & W');
         [lia|exact Hts2|exact Hdl|exact Hd2|exact Hend|reflexivity|].
-      exists st'. split; [|split; [exact Hst'|eapply sext4_trans; [exact Wdl|exact W']]].
+      exists st'. split; [|split; [exact Hst'|eapply sx_eq; [eapply sx_trans; [exact Wdl|exact W']|exact HE]]].
       rewrite Hl. cbn [rev]. rewrite <- app_assoc. reflexivity.
 Qed.
 
 Lemma sloop_children2 ch :
-  Forall P_node2 ch -> forallb core4_node ch = true -> nums_ok4_l ch ->
+  Forall P_node2 ch -> forallb core2_node ch = true -> nums_ok2_l ch ->
   forall d f cli acc dups st ts rest,
     (lsz2 ch <= f)%nat ->
-    Forall2 tmatch ts (nodes_sh4 ml idnum qa qi (S d) ch) ->
+    Forall2 tmatch ts (nodes_sh5 (S d) ch) ->
     ptoks st = ts ++ rest -> pbdepth st = 0 ->
     ends_block (ind_count (S d)) rest ->
     (ch = [] -> cli = 0) ->
-    exists st', sloop f (ind_count (S d)) cli [] acc dups st = POk (rev acc ++ ch) st' /\ ptoks st' = rest /\ sext4 st st'.
+    exists st', sloop f (ind_count (S d)) cli [] acc dups st = POk (rev acc ++ ch) st' /\ ptoks st' = rest /\ sx st st' (E ts (nodes_mk5 (S d) ch)).
 Proof.
   induction ch as [|c cs IHl]; intros HP Hcore Hnum d f cli acc dups st ts rest Hf Hts Hst Hdep Hend Hcli.
   - inversion Hts; subst ts. cbn [app] in Hst. destruct rest as [|t r]; [destruct Hend|].
@@ -1049,13 +901,13 @@ Proof.
     assert (H0 : (0 <? ind_count (S d)) = true) by (apply N.ltb_lt; unfold ind_count; lia).
     rewrite H0.
     destruct (tk t); cbn in Hend |- *; rewrite ?app_nil_r; try discriminate Hend;
-      rewrite ?Bool.orb_false_r in Hend; rewrite ?Hend; eexists; (split; [reflexivity|split; [exact Hst|apply sext4_refl]]).
+      rewrite ?Bool.orb_false_r in Hend; rewrite ?Hend; eexists; (split; [reflexivity|split; [exact Hst|apply sx_of_sext; apply sext_refl]]).
   - inversion HP as [|? ? HPc HPcs]; subst.
     cbn [forallb] in Hcore. apply andb_prop in Hcore. destruct Hcore as [Hcc Hccs].
     destruct Hnum as [Hnc Hncs].
-    cbn [nodes_sh4 flat_map] in Hts. apply Forall2_app_inv_r in Hts.
+    cbn [MultiWord.nodes_sh5 flat_map] in Hts. apply Forall2_app_inv_r in Hts.
     destruct Hts as (ts1 & ts2 & Hts1 & Hts2 & ->).
-    unfold node_sh4 in Hts1. apply Forall2_app_inv_r in Hts1. destruct Hts1 as (tl & ts1' & Htl & Hts1' & ->).
+    unfold MultiWord.node_sh5 in Hts1. apply Forall2_app_inv_r in Hts1. destruct Hts1 as (tl & ts1' & Htl & Hts1' & ->).
     cbn [indent_sh app] in Hts1'. inversion Hts1' as [|tI ? tm ? [HIk HIv] Htm]; subst. cbn [fst snd] in HIk, HIv.
     destruct (main_first c (S d) Hcc) as (s0 & body & Emain & Hs0). pose proof Htm as Htm'. rewrite Emain in Htm'.
     inversion Htm' as [|tb ? tm' ? [Hbk _] _]; subst. clear Htm'.
@@ -1067,7 +919,7 @@ Proof.
     destruct (sloop_lead d (lead_of c) [] cli f1 acc dups st tl (tI :: (tb :: tm') ++ ts2 ++ rest) Htl Hst) as (sta & cla & Ea & Hpa & Wa);
       [discriminate|].
     rewrite Ea. cbn [app] in Hpa |- *. clear Ea.
-    pose proof (sext4_depth0 _ _ Wa Hdep) as Hda.
+    pose proof (sext_depth0 _ _ Wa Hdep) as Hda.
     (* the INDENT of the header line *)
     destruct f1 as [|f1]; [lia|]. rewrite sloop_eq. cbv zeta.
     is_step Hpa HIk. rewrite (cur_hd _ _ _ Hpa).
@@ -1090,14 +942,16 @@ Proof.
     set (dl := match node_key_line c (tline (cur (adv sta))) with Some (k, l) => track_dup k l dups st1 | None => (dups, st1) end).
     assert (Hdl : ptoks (snd dl) = tail ++ ts2 ++ rest).
     { subst dl. destruct (node_key_line c _) as [[k l]|]; [rewrite track_dup_toks|]; exact Hst1. }
-    assert (Wdl : sext4 st (snd dl)).
-    { eapply sext4_trans; [exact Wa|]. eapply sext4_trans; [apply sext4_adv|]. eapply sext4_trans; [exact W1|].
-      subst dl. destruct (node_key_line c _) as [[k l]|]; [apply sext4_track_dup|apply sext4_refl]. }
+    assert (Wdl : sx st (snd dl) (E (tb :: tm') (main_mk5 (S d) c))).
+    { eapply sx_pre; [exact Wa|]. eapply sx_pre; [apply sext_adv|]. eapply sx_post; [exact W1|].
+      subst dl. destruct (node_key_line c _) as [[k l]|]; [apply sext_track_dup|apply sext_refl]. }
+    assert (HE : E (tb :: tm') (main_mk5 (S d) c) ++ E ts2 (nodes_mk5 (S d) cs) = E ((tl ++ tI :: tb :: tm') ++ ts2) (nodes_mk5 (S d) (c :: cs))).
+    { symmetry. apply E_nodes_S; [exact (F2_length _ _ _ Htl)|rewrite (main_mk5_len ml idnum qa5 qi); exact (F2_length _ _ _ Htm)]. }
     destruct dl as [dups' st2] eqn:Edl. cbn [snd] in Hdl, Wdl.
-    pose proof (sext4_depth0 _ _ Wdl Hdep) as Hd2.
+    pose proof (sx_depth0 _ _ _ Wdl Hdep) as Hd2.
     assert (Hrest : exists t0 r0, ts2 ++ rest = t0 :: r0).
     { destruct rest as [|t0 r0]; [destruct Hend|]. destruct ts2; cbn [app]; eauto. }
-    destruct c as [k v lead tr|k tg chn lead|i k a chn lead|]; cbn [core4_node] in Hcc; try discriminate Hcc.
+    destruct c as [k v lead tr|k tg chn lead|i k a chn lead|]; cbn [core2_node] in Hcc; try discriminate Hcc.
     + (* assignment: one more iteration for its NEWLINE *)
       destruct Htail as (tn & -> & Htn). cbn [app] in Hdl.
       destruct Hrest as (t0 & r0 & Hr). rewrite Hr in Hdl.
@@ -1105,25 +959,25 @@ Proof.
       pose proof (adv_toks _ _ _ _ Hdl) as H2. rewrite <- Hr in H2.
       destruct (IHl HPcs Hccs Hncs d f1 0 (NAssign k v lead tr :: acc) dups' (adv st2) ts2 rest) as (st' & Hl & Hst' & W');
         [cbn [sz2] in Hf1; lia|exact Hts2|exact H2|rewrite adv_depth; exact Hd2|exact Hend|reflexivity|].
-      exists st'. split; [|split; [exact Hst'|eapply sext4_trans; [exact Wdl|eapply sext4_trans; [apply sext4_adv|exact W']]]].
+      exists st'. split; [|split; [exact Hst'|eapply sx_eq; [eapply sx_trans; [exact Wdl|eapply sx_pre; [apply sext_adv|exact W']]|exact HE]]].
       rewrite Hl. cbn [rev]. rewrite <- app_assoc. reflexivity.
     + cbn [tail_ok] in Htail. subst tail. cbn [app] in Hdl.
       destruct (IHl HPcs Hccs Hncs d f1 0 (NBlock k tg chn lead :: acc) dups' st2 ts2 rest) as (st' & Hl & Hst' & W');
         [lia|exact Hts2|exact Hdl|exact Hd2|exact Hend|reflexivity|].
-      exists st'. split; [|split; [exact Hst'|eapply sext4_trans; [exact Wdl|exact W']]].
+      exists st'. split; [|split; [exact Hst'|eapply sx_eq; [eapply sx_trans; [exact Wdl|exact W']|exact HE]]].
       rewrite Hl. cbn [rev]. rewrite <- app_assoc. reflexivity.
     + cbn [tail_ok] in Htail. subst tail. cbn [app] in Hdl.
       destruct (IHl HPcs Hccs Hncs d f1 0 (NSection i k a chn lead :: acc) dups' st2 ts2 rest) as (st' & Hl & Hst' & W');
         [lia|exact Hts2|exact Hdl|exact Hd2|exact Hend|reflexivity|].
-      exists st'. split; [|split; [exact Hst'|eapply sext4_trans; [exact Wdl|exact W']]].
+      exists st'. split; [|split; [exact Hst'|eapply sx_eq; [eapply sx_trans; [exact Wdl|exact W']|exact HE]]].
       rewrite Hl. cbn [rev]. rewrite <- app_assoc. reflexivity.
 Qed.
 
 Lemma first_indent D c cs tsc :
-  Forall2 tmatch tsc (nodes_sh4 ml idnum qa qi (S D) (c :: cs)) ->
+  Forall2 tmatch tsc (nodes_sh5 (S D) (c :: cs)) ->
   exists tI r0, tsc = tI :: r0 /\ tk tI = INDENT /\ count_of tI = ind_count (S D).
 Proof.
-  intros Hb3. cbn [nodes_sh4 flat_map] in Hb3. apply Forall2_app_inv_r in Hb3. destruct Hb3 as (u1 & u2 & Hu1 & _ & ->).
+  intros Hb3. cbn [MultiWord.nodes_sh5 flat_map] in Hb3. apply Forall2_app_inv_r in Hb3. destruct Hb3 as (u1 & u2 & Hu1 & _ & ->).
   destruct (node_sh2_first D c) as (body & Hsh). rewrite Hsh in Hu1.
   inversion Hu1 as [|tI ? r1 ? [HIk HIv] _]; subst. cbn [fst snd] in HIk, HIv.
   exists tI, (r1 ++ u2). split; [reflexivity|]. split; [exact HIk|]. unfold count_of. rewrite HIv. reflexivity.
@@ -1132,8 +986,8 @@ Qed.
 Lemma P_assign k v l t : P_node2 (NAssign k v l t).
 Proof.
   unfold P_node2. intros Hcore Hnum D f leading st ts rest Hf Hts Hst Hdep _.
-  cbn [core4_node] in Hcore. apply andb_prop in Hcore. destruct Hcore as [Hc Ht].
-  cbn [sz2] in Hf. destruct f as [|f]; [lia|]. cbn [nums_ok4] in Hnum.
+  cbn [core2_node] in Hcore. apply andb_prop in Hcore. destruct Hcore as [Hc Ht].
+  cbn [sz2] in Hf. destruct f as [|f]; [lia|]. cbn [nums_ok2] in Hnum.
   destruct (psec_assign2 f leading st ts rest k v l t D Hc Hnum Ht Hts Hst Hdep) as (st' & tn & Hp & Hp' & Hn & W).
   exists st', [tn]. split; [exact Hp|]. split; [exact Hp'|]. split; [|exact W]. exists tn. split; [reflexivity|exact Hn].
 Qed.
@@ -1141,10 +995,10 @@ Qed.
 Lemma P_block k tg ch l : Forall P_node2 ch -> P_node2 (NBlock k tg ch l).
 Proof.
   unfold P_node2 at 2. intros IH Hcore Hnum D f leading st ts rest Hf Hts Hst Hdep Hend. specialize (Hend eq_refl).
-  cbn [core4_node] in Hcore. destruct tg; [discriminate|].
+  cbn [core2_node] in Hcore. destruct tg; [discriminate|].
   apply andb_prop in Hcore. destruct Hcore as [Hne Hcc].
-  rewrite nums_ok4_block in Hnum. rewrite sz2_block in Hf.
-  rewrite main_sh4_block in Hts. cbn [app] in Hts.
+  rewrite nums_ok2_block in Hnum. rewrite sz2_block in Hf.
+  rewrite main_sh5_block in Hts. cbn [app] in Hts.
   inversion Hts as [|ti ? ? ? [Hik Hiv] Hb1]; subst. inversion Hb1 as [|tb ? ? ? [Hbk _] Hb2]; subst.
   inversion Hb2 as [|tn ? tsc ? [Hnk _] Hb3]; subst. cbn [fst snd] in Hik, Hiv, Hbk, Hnk.
   rewrite <- !app_comm_cons in Hst.
@@ -1175,7 +1029,7 @@ Proof.
     as (st' & Hl & Hst' & W'); [lia|exact Hb3|rewrite H3, Etsc; reflexivity|rewrite !adv_depth; exact Hdep|exact Hend|discriminate|].
   rewrite Hl. cbn [bind rev app set_lead].
   exists st', []. split; [reflexivity|]. split; [exact Hst'|]. split; [reflexivity|].
-  eapply sext4_trans; [|exact W']. sadv.
+  eapply sx_eq; [eapply sx_pre; [|exact W']; sadv|reflexivity].
 Qed.
 
 (* ---- section markers ------------------------------------------------------------------------------------------------------ *)
@@ -1197,7 +1051,7 @@ Proof. reflexivity. Qed.
 
 Lemma annot_read a st ts tn r :
   Forall2 tmatch ts (annot_sh a) -> ptoks st = ts ++ tn :: r -> tk tn = NEWLINE -> r <> [] ->
-  exists st', consume_annotation true st = POk a st' /\ ptoks st' = tn :: r /\ sext4 st st'.
+  exists st', consume_annotation true st = POk a st' /\ ptoks st' = tn :: r /\ sext st st'.
 Proof.
   intros Hts Hst Hn Hr. unfold consume_annotation. destruct a as [x|]; cbn [annot_sh] in Hts.
   - inversion Hts as [|tL ? ? ? [HLk _] Hts1]; subst. inversion Hts1 as [|tX ? ? ? [HXk HXv] Hts2]; subst.
@@ -1212,7 +1066,7 @@ Proof.
     cbn [tkind_eqb tkind_code N.eqb Pos.eqb kin existsb orb andb negb]. change (1 - 1) with 0. change (0 <? 0) with false. cbv iota.
     rewrite capture_eq. change (0 <? 0) with false. cbn [andb bind rev app concat]. rewrite app_nil_r.
     eexists. split; [reflexivity|]. split; [exact H3|]. sadv.
-  - inversion Hts; subst. cbn [app] in Hst. is_step Hst Hn. exists st. split; [reflexivity|]. split; [exact Hst|apply sext4_refl].
+  - inversion Hts; subst. cbn [app] in Hst. is_step Hst Hn. exists st. split; [reflexivity|]. split; [exact Hst|apply sext_refl].
 Qed.
 
 Lemma sid_read i st tid ta r :
@@ -1246,10 +1100,10 @@ Qed.
 Lemma P_section i k a ch l : Forall P_node2 ch -> P_node2 (NSection i k a ch l).
 Proof.
   unfold P_node2 at 2. intros IH Hcore Hnum D f leading st ts rest Hf Hts Hst Hdep Hend. specialize (Hend eq_refl).
-  cbn [core4_node] in Hcore. apply andb_prop in Hcore. destruct Hcore as [Han Hcore].
+  cbn [core2_node] in Hcore. apply andb_prop in Hcore. destruct Hcore as [Han Hcore].
   apply andb_prop in Hcore. destruct Hcore as [Hne Hcc].
-  rewrite nums_ok4_section in Hnum. destruct Hnum as [Hid Hnum]. rewrite sz2_section in Hf.
-  rewrite main_sh4_section in Hts. cbn [app] in Hts.
+  rewrite nums_ok2_section in Hnum. destruct Hnum as [Hid Hnum]. rewrite sz2_section in Hf.
+  rewrite main_sh5_section in Hts. cbn [app] in Hts.
   inversion Hts as [|tS ? ? ? [HSk _] Hb1]; subst. inversion Hb1 as [|tid ? ? ? Hidm Hb2]; subst.
   inversion Hb2 as [|ta ? ? ? [Hak _] Hb3]; subst. inversion Hb3 as [|tkey ? ts4 ? [Hkk Hkv] Hb4]; subst.
   cbn [fst snd] in HSk, Hak, Hkk, Hkv.
@@ -1279,12 +1133,14 @@ Proof.
                   sloop (S f) (ind_count (S D)) (ind_count (S D)) [] [] [] (adv st5)).
   { rewrite sloop_eq. cbv zeta. is_step H6 HIk. rewrite (cur_hd _ _ _ H6), HIc, N.ltb_irrefl. reflexivity. }
   rewrite Hfold.
-  assert (W6 : sext4 st (adv st5)) by (eapply sext4_trans; [|apply sext4_adv]; eapply sext4_trans; [|exact W5]; sadv).
+  assert (W6 : sext st (adv st5)) by (eapply sext_trans; [|apply sext_adv]; eapply sext_trans; [|exact W5]; sadv).
   destruct (sloop_children2 (c :: cs) IH Hcc Hnum D (S f) (ind_count (S D)) [] [] (adv st5) tsc rest)
-    as (st' & Hl & Hst' & W'); [lia|exact Hb6|rewrite H6, Etsc; reflexivity|exact (sext4_depth0 _ _ W6 Hdep)|exact Hend|discriminate|].
+    as (st' & Hl & Hst' & W'); [lia|exact Hb6|rewrite H6, Etsc; reflexivity|exact (sext_depth0 _ _ W6 Hdep)|exact Hend|discriminate|].
   rewrite Hl. cbn [bind rev app set_lead].
   exists st', []. split; [destruct leading; reflexivity|]. split; [exact Hst'|]. split; [reflexivity|].
-  eapply sext4_trans; [exact W6|exact W'].
+  eapply sx_eq; [eapply sx_pre; [exact W6|exact W']|].
+  symmetry. rewrite main_mk5_section. change (nomk 4) with [@None (list str); None; None; None]. cbn [app E].
+  rewrite (E_skip tsa (tn :: tsc) (length (annot_sh a)) _ (F2_length _ _ _ Htsa)). reflexivity.
 Qed.
 
 Theorem all_P_node2 : forall n, P_node2 n.
@@ -1299,38 +1155,53 @@ Qed.
 
 
 (* ---- document level ------------------------------------------------------------------------------------------------------ *)
+
+Lemma E_nodes_0 c cs tl tm ts2 X : length tl = length (lead_sh 0 (lead_of c)) -> length tm = length (main_mk5 0 c) ->
+  E ((tl ++ tm) ++ ts2) (nodes_mk5 0 (c :: cs) ++ X) = E tm (main_mk5 0 c) ++ E ts2 (nodes_mk5 0 cs ++ X).
+Proof.
+  intros Hl Hm. cbn [MultiWord.nodes_mk5 flat_map]. rewrite <- (app_assoc (node_mk5 0 c)). rewrite E_app.
+  - f_equal. unfold MultiWord.node_mk5. apply E_skip. rewrite Hl. cbn [indent_sh length]. lia.
+  - unfold MultiWord.node_mk5. rewrite !app_length, nomk_len, Hl, Hm. cbn [indent_sh length]. lia.
+Qed.
+Lemma meta_mk5_len m : length (meta_mk5 m) = length (meta_sh5 m).
+Proof.
+  unfold MultiWord.meta_mk5, MultiWord.meta_sh5. destruct m as [|kv0 m0]; [reflexivity|]. rewrite !app_length, nomk_len. cbn [length]. f_equal.
+  induction (kv0 :: m0) as [|kv m IH]; [reflexivity|]. cbn [flat_map]. rewrite !app_length, IH, !nomk_len. cbn [indent_sh length].
+  destruct (snd kv); [rewrite (MultiWord.val_mk5_len ml qi)|]; reflexivity.
+Qed.
+
 Lemma lead_sh_len_S D cs : length (lead_sh (S D) cs) = (3 * length cs)%nat.
 Proof. induction cs as [|c cs IH]; [reflexivity|]. rewrite lead_sh_cons, !app_length. unfold sh in *. rewrite IH. cbn [indent_sh length]. lia. Qed.
 Lemma lead_sh_len_0 cs : length (lead_sh 0 cs) = (2 * length cs)%nat.
 Proof. induction cs as [|c cs IH]; [reflexivity|]. rewrite lead_sh_cons, !app_length. unfold sh in *. rewrite IH. cbn [indent_sh length]. lia. Qed.
 
-Lemma main_len_pos D n : core4_node n = true -> (3 <= length (main_sh4 ml idnum qa qi D n))%nat.
+Lemma main_len_pos D n : core2_node n = true -> (3 <= length (main_sh5 D n))%nat.
 Proof.
-  destruct n; cbn [core4_node]; try discriminate; intros _; cbn [main_sh4]; rewrite !app_length; cbn [length]; lia.
+  destruct n; cbn [core2_node]; try discriminate; intros _; cbn [MultiWord.main_sh5]; rewrite !app_length; cbn [length]; lia.
 Qed.
 
-Lemma node_sh2_len D c : length (node_sh4 ml idnum qa qi (S D) c) = (3 * length (lead_of c) + 1 + length (main_sh4 ml idnum qa qi (S D) c))%nat.
-Proof. unfold node_sh4. rewrite !app_length, lead_sh_len_S. cbn [indent_sh length]. lia. Qed.
+Lemma node_sh2_len D c : length (node_sh5 (S D) c) = (3 * length (lead_of c) + 1 + length (main_sh5 (S D) c))%nat.
+Proof. unfold MultiWord.node_sh5. rewrite !app_length, lead_sh_len_S. cbn [indent_sh length]. lia. Qed.
 
 Lemma lsz2_le_len ch D :
-  Forall (fun n => forall D, core4_node n = true -> (sz2 n + 3 <= 3 * length (main_sh4 ml idnum qa qi D n))%nat) ch ->
-  forallb core4_node ch = true -> (lsz2 ch <= 1 + 3 * length (nodes_sh4 ml idnum qa qi (S D) ch))%nat.
+  Forall (fun n => forall D, core2_node n = true -> (sz2 n + 3 <= 3 * length (main_sh5 D n))%nat) ch ->
+  forallb core2_node ch = true -> (lsz2 ch <= 1 + 3 * length (nodes_sh5 (S D) ch))%nat.
 Proof.
   induction ch as [|c cs IH]; intros H Hcc; [cbn; lia|].
   inversion H as [|? ? Hc Hcs]; subst. cbn [forallb] in Hcc. apply andb_prop in Hcc. destruct Hcc as [Hcc1 Hcc2].
-  cbn [lsz2 nodes_sh4 flat_map]. rewrite app_length, node_sh2_len.
-  specialize (Hc (S D) Hcc1). specialize (IH Hcs Hcc2). unfold nodes_sh4 in IH. unfold sh in *. lia.
+  cbn [lsz2 MultiWord.nodes_sh5 flat_map]. rewrite app_length, node_sh2_len.
+  specialize (Hc (S D) Hcc1). specialize (IH Hcs Hcc2). unfold MultiWord.nodes_sh5 in IH. unfold sh in *. lia.
 Qed.
 
-Lemma sz2_le_len n : forall D, core4_node n = true -> (sz2 n + 3 <= 3 * length (main_sh4 ml idnum qa qi D n))%nat.
+Lemma sz2_le_len n : forall D, core2_node n = true -> (sz2 n + 3 <= 3 * length (main_sh5 D n))%nat.
 Proof.
-  induction n using node_ind2; intros D Hc; cbn [core4_node] in Hc; try discriminate Hc.
-  - cbn [sz2 main_sh4]. rewrite !app_length. cbn [length]. lia.
+  induction n using node_ind2; intros D Hc; cbn [core2_node] in Hc; try discriminate Hc.
+  - cbn [sz2 MultiWord.main_sh5]. rewrite !app_length. cbn [length]. lia.
   - destruct t; [discriminate|]. apply andb_prop in Hc. destruct Hc as [_ Hcc].
-    rewrite sz2_block, main_sh4_block. rewrite !app_length. cbn [length].
+    rewrite sz2_block, main_sh5_block. rewrite !app_length. cbn [length].
     pose proof (lsz2_le_len ch D H Hcc). unfold sh in *. lia.
   - apply andb_prop in Hc. destruct Hc as [_ Hc]. apply andb_prop in Hc. destruct Hc as [_ Hcc].
-    rewrite sz2_section, main_sh4_section. rewrite !app_length. cbn [length].
+    rewrite sz2_section, main_sh5_section. rewrite !app_length. cbn [length].
     pose proof (lsz2_le_len ch D H Hcc). unfold sh in *. lia.
 Qed.
 
@@ -1342,15 +1213,15 @@ Fixpoint dfuel (ns : list node) (trl : list str) : nat :=
 
 (* first token after a top-level container: not a comment *)
 Lemma ends_after_top c cs trl ts2 tE tail :
-  is_container c = true -> top_ok (c :: cs) trl = true -> forallb core4_node cs = true ->
-  Forall2 tmatch ts2 (nodes_sh4 ml idnum qa qi 0 cs ++ lead_sh 0 trl) -> tk tE = ENVELOPE_END ->
+  is_container c = true -> top_ok (c :: cs) trl = true -> forallb core2_node cs = true ->
+  Forall2 tmatch ts2 (nodes_sh5 0 cs ++ lead_sh 0 trl) -> tk tE = ENVELOPE_END ->
   ends_block (ind_count 1) (ts2 ++ tE :: tail).
 Proof.
   intros Hcont Htop Hcc Hts2 HE. cbn [top_ok] in Htop. rewrite Hcont in Htop. apply andb_prop in Htop. destruct Htop as [Hn _].
   destruct cs as [|c2 cs'].
   - destruct trl; [|discriminate Hn]. inversion Hts2; subst. cbn [app ends_block]. unfold ends_blockb. rewrite HE. reflexivity.
   - cbn [forallb] in Hcc. apply andb_prop in Hcc. destruct Hcc as [Hc2 _].
-    cbn [nodes_sh4 flat_map] in Hts2. rewrite <- app_assoc in Hts2. unfold node_sh4 in Hts2.
+    cbn [MultiWord.nodes_sh5 flat_map] in Hts2. rewrite <- app_assoc in Hts2. unfold MultiWord.node_sh5 in Hts2.
     destruct (lead_of c2); [|discriminate Hn]. cbn [lead_sh flat_map indent_sh app] in Hts2.
     destruct (main_first c2 0%nat Hc2) as (s0 & body & Emain & Hs0). rewrite Emain in Hts2. rewrite <- app_comm_cons in Hts2.
     inversion Hts2 as [|tJ ? ? ? [HJk _] _]; subst. cbn [app ends_block]. unfold ends_blockb.
@@ -1358,22 +1229,24 @@ Proof.
 Qed.
 
 Lemma dloop_nodes2 trl ns :
-  forallb core4_node ns = true -> nums_ok4_l ns -> top_ok ns trl = true ->
+  forallb core2_node ns = true -> nums_ok2_l ns -> top_ok ns trl = true ->
   forall f acc dups st ts tE tail,
     (dfuel ns trl <= f)%nat ->
-    Forall2 tmatch ts (nodes_sh4 ml idnum qa qi 0 ns ++ lead_sh 0 trl) ->
+    Forall2 tmatch ts (nodes_sh5 0 ns ++ lead_sh 0 trl) ->
     ptoks st = ts ++ tE :: tail -> tk tE = ENVELOPE_END -> pbdepth st = 0 ->
-    exists st', dloop f [] acc dups st = POk (rev acc ++ ns, trl) st' /\ ptoks st' = tE :: tail /\ sext4 st st'.
+    exists st', dloop f [] acc dups st = POk (rev acc ++ ns, trl) st' /\ ptoks st' = tE :: tail /\
+                sx st st' (E ts (nodes_mk5 0 ns ++ nomk (length (lead_sh 0 trl)))).
 Proof.
   induction ns as [|c cs IH]; intros Hcore Hnum Htop f acc dups st ts tE tail Hf Hts Hst HE Hdep.
-  - cbn [nodes_sh4 flat_map app] in Hts. cbn [dfuel] in Hf.
+  - cbn [MultiWord.nodes_sh5 flat_map app] in Hts. cbn [dfuel] in Hf.
     replace f with (2 * length trl + (f - 2 * length trl))%nat by lia.
     destruct (dloop_lead trl [] (f - 2 * length trl)%nat acc dups st ts (tE :: tail) Hts Hst) as (sta & Ea & Hpa & Wa); [discriminate|].
     rewrite Ea. cbn [app]. destruct (f - 2 * length trl)%nat as [|f1] eqn:Ef; [lia|].
-    rewrite dloop_eq. is_step Hpa HE. rewrite app_nil_r. exists sta. split; [reflexivity|]. split; [exact Hpa|exact Wa].
+    rewrite dloop_eq. is_step Hpa HE. rewrite app_nil_r. exists sta. split; [reflexivity|]. split; [exact Hpa|].
+    cbn [MultiWord.nodes_mk5 flat_map app]. rewrite E_nomk. apply sx_of_sext. exact Wa.
   - cbn [forallb] in Hcore. apply andb_prop in Hcore. destruct Hcore as [Hcc Hccs]. destruct Hnum as [Hnc Hncs].
-    cbn [nodes_sh4 flat_map] in Hts. rewrite <- app_assoc in Hts. apply Forall2_app_inv_r in Hts. destruct Hts as (ts1 & ts2 & Hts1 & Hts2 & ->).
-    unfold node_sh4 in Hts1. cbn [indent_sh app] in Hts1. apply Forall2_app_inv_r in Hts1. destruct Hts1 as (tl & tm & Htl & Htm & ->).
+    cbn [MultiWord.nodes_sh5 flat_map] in Hts. rewrite <- app_assoc in Hts. apply Forall2_app_inv_r in Hts. destruct Hts as (ts1 & ts2 & Hts1 & Hts2 & ->).
+    unfold MultiWord.node_sh5 in Hts1. cbn [indent_sh app] in Hts1. apply Forall2_app_inv_r in Hts1. destruct Hts1 as (tl & tm & Htl & Htm & ->).
     destruct (main_first c 0%nat Hcc) as (s0 & body & Emain & Hs0). pose proof Htm as Htm'. rewrite Emain in Htm'.
     inversion Htm' as [|tb ? tm' ? [Hbk _] _]; subst. clear Htm'. cbn [fst] in Hbk.
     cbn [dfuel] in Hf.
@@ -1383,7 +1256,7 @@ Proof.
     rewrite <- !app_assoc in Hst.
     destruct (dloop_lead (lead_of c) [] f1 acc dups st tl ((tb :: tm') ++ ts2 ++ tE :: tail) Htl Hst) as (sta & Ea & Hpa & Wa); [discriminate|].
     rewrite Ea. cbn [app] in Hpa |- *. clear Ea.
-    pose proof (sext4_depth0 _ _ Wa Hdep) as Hda.
+    pose proof (sext_depth0 _ _ Wa Hdep) as Hda.
     destruct f1 as [|f1]; [lia|].
     rewrite dloop_eq.
     assert (HK : tkind_eqb (tk tb) EOF = false /\ tkind_eqb (tk tb) ENVELOPE_END = false /\ tkind_eqb (tk tb) INDENT = false /\
@@ -1400,29 +1273,32 @@ Proof.
     set (dl := match node_key_line c (tline (cur sta)) with Some (k, l) => track_dup k l dups st1 | None => (dups, st1) end).
     assert (Hdl : ptoks (snd dl) = tl1 ++ ts2 ++ tE :: tail).
     { subst dl. destruct (node_key_line c _) as [[k l]|]; [rewrite track_dup_toks|]; exact Hst1. }
-    assert (Wdl : sext4 st (snd dl)).
-    { eapply sext4_trans; [exact Wa|]. eapply sext4_trans; [exact W1|].
-      subst dl. destruct (node_key_line c _) as [[k l]|]; [apply sext4_track_dup|apply sext4_refl]. }
+    assert (Wdl : sx st (snd dl) (E (tb :: tm') (main_mk5 0 c))).
+    { eapply sx_pre; [exact Wa|]. eapply sx_post; [exact W1|].
+      subst dl. destruct (node_key_line c _) as [[k l]|]; [apply sext_track_dup|apply sext_refl]. }
+    assert (HEq : E (tb :: tm') (main_mk5 0 c) ++ E ts2 (nodes_mk5 0 cs ++ nomk (length (lead_sh 0 trl))) =
+                  E ((tl ++ tb :: tm') ++ ts2) (nodes_mk5 0 (c :: cs) ++ nomk (length (lead_sh 0 trl)))).
+    { symmetry. apply E_nodes_0; [exact (F2_length _ _ _ Htl)|rewrite (main_mk5_len ml idnum qa5 qi); exact (F2_length _ _ _ Htm)]. }
     destruct dl as [dups' st2] eqn:Edl. cbn [snd] in Hdl, Wdl.
-    pose proof (sext4_depth0 _ _ Wdl Hdep) as Hd2.
-    destruct c as [k v lead tr|k tg chn lead|i k a chn lead|]; cbn [core4_node] in Hcc; try discriminate Hcc.
+    pose proof (sx_depth0 _ _ _ Wdl Hdep) as Hd2.
+    destruct c as [k v lead tr|k tg chn lead|i k a chn lead|]; cbn [core2_node] in Hcc; try discriminate Hcc.
     + destruct Htl1 as (tn & -> & Htn). cbn [app] in Hdl.
       destruct f1 as [|f1]; [lia|]. rewrite dloop_eq. is_step Hdl Htn.
       assert (Hne : exists t0 r0, ts2 ++ tE :: tail = t0 :: r0) by (destruct ts2; cbn [app]; eauto).
       destruct Hne as (t0 & r0 & Hr). rewrite Hr in Hdl. pose proof (adv_toks _ _ _ _ Hdl) as H2. rewrite <- Hr in H2.
       destruct (IH Hccs Hncs Htop' f1 (NAssign k v lead tr :: acc) dups' (adv st2) ts2 tE tail) as (st' & Hl & Hst' & W');
         [lia|exact Hts2|exact H2|exact HE|rewrite adv_depth; exact Hd2|].
-      exists st'. split; [|split; [exact Hst'|eapply sext4_trans; [exact Wdl|eapply sext4_trans; [apply sext4_adv|exact W']]]].
+      exists st'. split; [|split; [exact Hst'|eapply sx_eq; [eapply sx_trans; [exact Wdl|eapply sx_pre; [apply sext_adv|exact W']]|exact HEq]]].
       rewrite Hl. cbn [rev]. rewrite <- app_assoc. reflexivity.
     + cbn [tail_ok] in Htl1. subst tl1. cbn [app] in Hdl.
       destruct (IH Hccs Hncs Htop' f1 (NBlock k tg chn lead :: acc) dups' st2 ts2 tE tail) as (st' & Hl & Hst' & W');
         [lia|exact Hts2|exact Hdl|exact HE|exact Hd2|].
-      exists st'. split; [|split; [exact Hst'|eapply sext4_trans; [exact Wdl|exact W']]].
+      exists st'. split; [|split; [exact Hst'|eapply sx_eq; [eapply sx_trans; [exact Wdl|exact W']|exact HEq]]].
       rewrite Hl. cbn [rev]. rewrite <- app_assoc. reflexivity.
     + cbn [tail_ok] in Htl1. subst tl1. cbn [app] in Hdl.
       destruct (IH Hccs Hncs Htop' f1 (NSection i k a chn lead :: acc) dups' st2 ts2 tE tail) as (st' & Hl & Hst' & W');
         [lia|exact Hts2|exact Hdl|exact HE|exact Hd2|].
-      exists st'. split; [|split; [exact Hst'|eapply sext4_trans; [exact Wdl|exact W']]].
+      exists st'. split; [|split; [exact Hst'|eapply sx_eq; [eapply sx_trans; [exact Wdl|exact W']|exact HEq]]].
       rewrite Hl. cbn [rev]. rewrite <- app_assoc. reflexivity.
 Qed.
 
@@ -1481,28 +1357,30 @@ Qed.
 
 Definition field_sh (kv : str * metaval) : list sh :=
   indent_sh 1 ++ [(IDENTIFIER, Some (TVText (fst kv))); (ASSIGN, None)] ++
-  (match snd kv with MV v => val_sh4 qi 1 v | MD _ => [] end) ++ [(NEWLINE, None)].
-Definition field_num_ok4 (kv : str * metaval) : Prop := match snd kv with MV v => num_ok4 v | MD _ => True end.
+  (match snd kv with MV v => val_sh5 qm5 1 v | MD _ => [] end) ++ [(NEWLINE, None)].
+Definition field_mk (kv : str * metaval) : list mark :=
+  nomk 3 ++ (match snd kv with MV v => val_mk5 qm5 1 v | MD _ => [] end) ++ nomk 1.
+Definition field_num_ok (kv : str * metaval) : Prop := match snd kv with MV v => num_ok_val v | MD _ => True end.
 Definition meta_end (rest : list token) : Prop :=
   match rest with t :: _ :: _ => tk t <> INDENT /\ tk t <> NEWLINE | _ => False end.
 
 Lemma mloop_fields fields : forall m1 f hi dups st ts rest,
-  forallb meta_field_ok4 fields = true -> Forall field_num_ok4 fields ->
+  forallb meta_field_ok fields = true -> Forall field_num_ok fields ->
   nodupb (map fst m1 ++ map fst fields) = true ->
   (3 * length fields + 1 <= f)%nat ->
   Forall2 tmatch ts (flat_map field_sh fields) -> ptoks st = ts ++ rest -> pbdepth st = 0 -> meta_end rest ->
   (fields = [] -> hi = false) ->
-  exists st', mloop f (ind_count 1) hi m1 dups st = POk (m1 ++ fields) st' /\ ptoks st' = rest /\ sext4 st st'.
+  exists st', mloop f (ind_count 1) hi m1 dups st = POk (m1 ++ fields) st' /\ ptoks st' = rest /\ sx st st' (E ts (flat_map field_mk fields)).
 Proof.
   induction fields as [|[k mv] fs IH]; intros m1 f hi dups st ts rest Hok Hnum Hnd Hf Hts Hst Hdep Hend Hhi.
   - inversion Hts; subst. cbn [app] in Hst. rewrite (Hhi eq_refl). destruct f as [|f]; [cbn in Hf; lia|].
     destruct rest as [|t [|t2 r]]; [destruct Hend|destruct Hend|]. destruct Hend as [HnI HnN].
     rewrite mloop_eq. repeat rewrite (is_hd _ _ _ _ Hst). change (0 <? ind_count 1) with true. cbn [andb negb]. rewrite app_nil_r.
-    exists st. split; [|split; [exact Hst|apply sext4_refl]].
+    exists st. split; [|split; [exact Hst|apply sx_of_sext; apply sext_refl]].
     destruct (tk t); cbn [tkind_eqb tkind_code N.eqb Pos.eqb orb]; try reflexivity; congruence.
   - cbn [forallb] in Hok. apply andb_prop in Hok. destruct Hok as [Hk Hoks].
     inversion Hnum as [|? ? Hn1 Hns]; subst.
-    unfold meta_field_ok4 in Hk. unfold field_num_ok4 in Hn1. cbn [snd] in Hk, Hn1. destruct mv as [v|]; [|discriminate Hk].
+    unfold meta_field_ok in Hk. unfold field_num_ok in Hn1. cbn [snd] in Hk, Hn1. destruct mv as [v|]; [|discriminate Hk].
     cbn [flat_map] in Hts. apply Forall2_app_inv_r in Hts. destruct Hts as (ts1 & ts2 & Hts1 & Hts2 & ->).
     unfold field_sh in Hts1. cbn [fst snd indent_sh app] in Hts1.
     inversion Hts1 as [|tI ? ? ? [HIk HIv] Hb1]; subst. inversion Hb1 as [|ti ? ? ? [Hik Hiv] Hb2]; subst.
@@ -1522,24 +1400,29 @@ Proof.
     rewrite mloop_eq. is_step H1 Hik. change (0 <? ind_count 1) with true. cbn [andb negb]. cbv zeta.
     is_step H2 Hak. rewrite (cur_hd _ _ _ H1).
     assert (Hkey : text_of ti = k) by (unfold text_of; rewrite Hiv; reflexivity). rewrite Hkey.
-    destruct (pv_cval4 v qi 1%nat (vfuel (adv (adv st))) (adv (adv (adv st))) tsv tn (ts2 ++ rest) Hk Hn1 qi_ok) as (st5 & Hv & Hp5 & Hm5);
+    destruct (pv_cval5 v qm5 1%nat (vfuel (adv (adv st))) (adv (adv (adv st))) tsv tn (ts2 ++ rest) Hk Hn1 qm5_ok) as (st5 & Hv & Hp5 & Hm5);
       [unfold vfuel; rewrite (fuel_of_toks _ _ H2); cbn [length]; pose proof (f_equal (@length _) E1) as EL; rewrite app_length in EL; cbn [length] in EL; lia|exact Htsv|exact H3|rewrite Hnk; reflexivity|rewrite !adv_depth; exact Hdep|].
     rewrite Hv. cbn [bind].
-    pose proof (track_dup_toks k (tline ti) dups st5) as Htd. pose proof (sext4_track_dup k (tline ti) dups st5) as Wtd.
+    pose proof (track_dup_toks k (tline ti) dups st5) as Htd. pose proof (sext_track_dup k (tline ti) dups st5) as Wtd.
     destruct (track_dup k (tline ti) dups st5) as [dups' st6]. cbn [snd] in Htd, Wtd. rewrite Hp5 in Htd.
     cbn [map fst] in Hnd. apply nodupb_mid in Hnd. destruct Hnd as [Hfresh Hnd'].
     rewrite (dict_set_fresh m1 k (MV v) Hfresh).
-    assert (W6 : sext4 st st6).
-    { eapply sext4_trans; [|exact Wtd]. eapply sext4_trans; [|exact (moved4_sext4 _ _ _ Hm5)]. sadv. }
+    assert (W6 : sx st st6 (E tsv (val_mk5 qm5 1 v))).
+    { eapply sx_post; [|exact Wtd]. eapply sx_pre; [|exact Hm5]. sadv. }
+    assert (HEq : E tsv (val_mk5 qm5 1 v) ++ E ts2 (flat_map field_mk fs) = E ((tI :: ti :: ta :: tsv ++ [tn]) ++ ts2) (flat_map field_mk ((k, MV v) :: fs))).
+    { symmetry. cbn [flat_map]. pose proof (F2_length _ _ _ Htsv) as HLv. rewrite <- (val_mk5_len ml qi qm5 1 v) in HLv.
+      rewrite E_app by (unfold field_mk; cbn [snd length]; rewrite !app_length, !nomk_len, <- HLv; cbn [length]; lia).
+      f_equal. unfold field_mk. cbn [snd]. change (nomk 3) with [@None (list str); None; None]. cbn [app E].
+      rewrite E_app by exact HLv. rewrite E_nomk, app_nil_r. reflexivity. }
     (* NEWLINE *)
     assert (Hne2 : exists t2 r2, ts2 ++ rest = t2 :: r2).
     { destruct rest as [|t [|t2 r]]; [destruct Hend|destruct Hend|]. destruct ts2; cbn [app]; eauto. }
     destruct Hne2 as (t2 & r2 & E2). rewrite E2 in Htd.
     rewrite mloop_eq. is_step Htd Hnk. pose proof (adv_toks _ _ _ _ Htd) as H7. rewrite <- E2 in H7.
     destruct (IH (m1 ++ [(k, MV v)]) f false dups' (adv st6) ts2 rest Hoks Hns) as (st' & Hl & Hp' & W');
-      [rewrite map_app; exact Hnd'|lia|exact Hts2|exact H7|rewrite adv_depth; exact (sext4_depth0 _ _ W6 Hdep)|exact Hend|reflexivity|].
+      [rewrite map_app; exact Hnd'|lia|exact Hts2|exact H7|rewrite adv_depth; exact (sx_depth0 _ _ _ W6 Hdep)|exact Hend|reflexivity|].
     rewrite Hl, <- app_assoc. exists st'. split; [reflexivity|]. split; [exact Hp'|].
-    eapply sext4_trans; [exact W6|]. eapply sext4_trans; [apply sext4_adv|exact W'].
+    eapply sx_eq; [eapply sx_trans; [exact W6|eapply sx_pre; [apply sext_adv|exact W']]|exact HEq].
 Qed.
 
 Notation pmeta := (parse_meta_block numcanon holo_ok strict sp).
@@ -1551,13 +1434,13 @@ Proof.
 Qed.
 
 Lemma meta_sh_fields m : m <> [] ->
-  meta_sh4 ml idnum qa qi m = [(IDENTIFIER, Some (TVText (lit "META"))); (BLOCK, None); (NEWLINE, None)] ++ flat_map field_sh m.
+  meta_sh5 m = [(IDENTIFIER, Some (TVText (lit "META"))); (BLOCK, None); (NEWLINE, None)] ++ flat_map field_sh m.
 Proof. destruct m; [congruence|reflexivity]. Qed.
 
 Lemma pmeta_read m st ts rest :
-  m <> [] -> forallb meta_field_ok4 m = true -> Forall field_num_ok4 m -> nodupb (map fst m) = true ->
-  Forall2 tmatch ts (meta_sh4 ml idnum qa qi m) -> ptoks st = ts ++ rest -> pbdepth st = 0 -> meta_end rest ->
-  exists st', pmeta st = POk m st' /\ ptoks st' = rest /\ sext4 st st'.
+  m <> [] -> forallb meta_field_ok m = true -> Forall field_num_ok m -> nodupb (map fst m) = true ->
+  Forall2 tmatch ts (meta_sh5 m) -> ptoks st = ts ++ rest -> pbdepth st = 0 -> meta_end rest ->
+  exists st', pmeta st = POk m st' /\ ptoks st' = rest /\ sx st st' (E ts (meta_mk5 m)).
 Proof.
   intros Hne Hok Hnum Hnd Hts Hst Hdep Hend. rewrite (meta_sh_fields m Hne) in Hts. cbn [app] in Hts.
   inversion Hts as [|tM ? ? ? [HMk _] Hb1]; subst. inversion Hb1 as [|tB ? ? ? [HBk _] Hb2]; subst.
@@ -1583,7 +1466,8 @@ Proof.
     [|exact Hb3|rewrite H3, Etsf; reflexivity|rewrite !adv_depth; exact Hdep|exact Hend|intros E; congruence|].
   { subst F. rewrite (fuel_of_toks _ _ H3). pose proof (fields_len m) as HL. pose proof (F2_length _ _ _ Hb3) as HL2.
     rewrite Etsf in HL2. cbn [length] in *. rewrite app_length. unfold sh in *. lia. }
-  exists st'. split; [exact Hl|]. split; [exact Hp'|]. eapply sext4_trans; [|exact W']. sadv.
+  exists st'. split; [exact Hl|]. split; [exact Hp'|]. eapply sx_eq; [eapply sx_pre; [|exact W']; sadv|].
+  destruct m; [congruence|reflexivity].
 Qed.
 
 (* ---- parse_document in three pieces ---------------------------------------------------------------------------------------- *)
@@ -1617,43 +1501,44 @@ Proof. reflexivity. Qed.
 Definition bfirst_ok (t : token) : Prop := kin (tk t) [ENVELOPE_END; COMMENT; SECTION; IDENTIFIER] = true.
 
 Lemma body_first2 ns trl tsb tE tail :
-  forallb core4_node ns = true -> Forall2 tmatch tsb (nodes_sh4 ml idnum qa qi 0 ns ++ lead_sh 0 trl) -> tk tE = ENVELOPE_END ->
+  forallb core2_node ns = true -> Forall2 tmatch tsb (nodes_sh5 0 ns ++ lead_sh 0 trl) -> tk tE = ENVELOPE_END ->
   exists t r, tsb ++ tE :: tail = t :: r /\ bfirst_ok t /\
               (first_key_not_meta2 ns = true -> (tkind_eqb (tk t) IDENTIFIER && str_eqb (text_of t) (lit "META")) = false).
 Proof.
   intros Hc Hts HE. unfold bfirst_ok. destruct ns as [|c cs].
-  - cbn [nodes_sh4 flat_map app] in Hts. destruct trl as [|x xs].
+  - cbn [MultiWord.nodes_sh5 flat_map app] in Hts. destruct trl as [|x xs].
     + inversion Hts; subst. exists tE, tail. rewrite HE. repeat split.
     + rewrite lead_sh_cons in Hts. cbn [indent_sh app] in Hts. inversion Hts as [|t ? r1 ? [Hk _] _]; subst. cbn [fst] in Hk.
       exists t, (r1 ++ tE :: tail). rewrite Hk. repeat split.
   - cbn [forallb] in Hc. apply andb_prop in Hc. destruct Hc as [Hc _].
-    cbn [nodes_sh4 flat_map] in Hts. unfold node_sh4 at 1 in Hts. destruct (lead_of c) as [|x xs] eqn:El.
+    cbn [MultiWord.nodes_sh5 flat_map] in Hts. unfold MultiWord.node_sh5 at 1 in Hts. destruct (lead_of c) as [|x xs] eqn:El.
     + cbn [lead_sh flat_map indent_sh app] in Hts.
-      destruct c as [k v lead tr|k tg chn lead|i k a chn lead|]; cbn [core4_node] in Hc; try discriminate Hc; cbn [lead_of] in El; subst lead;
-        cbn [main_sh4 app] in Hts; inversion Hts as [|t ? r1 ? [Hk Hv] _]; subst; cbn [fst snd] in Hk, Hv;
+      destruct c as [k v lead tr|k tg chn lead|i k a chn lead|]; cbn [core2_node] in Hc; try discriminate Hc; cbn [lead_of] in El; subst lead;
+        cbn [MultiWord.main_sh5 app] in Hts; inversion Hts as [|t ? r1 ? [Hk Hv] _]; subst; cbn [fst snd] in Hk, Hv;
         exists t, (r1 ++ tE :: tail); rewrite Hk; (split; [reflexivity|]); (split; [reflexivity|]); cbn [first_key_not_meta2]; intros Hm;
         try reflexivity; unfold text_of; rewrite Hv; apply Bool.negb_true_iff; exact Hm.
     + rewrite lead_sh_cons in Hts. cbn [indent_sh app] in Hts. inversion Hts as [|t ? r1 ? [Hk _] _]; subst. cbn [fst] in Hk.
       exists t, (r1 ++ tE :: tail). rewrite Hk. repeat split.
 Qed.
 
-Lemma dfuel_le ns trl : forallb core4_node ns = true ->
-  (dfuel ns trl <= 1 + length (nodes_sh4 ml idnum qa qi 0 ns ++ lead_sh 0 trl))%nat.
+Lemma dfuel_le ns trl : forallb core2_node ns = true ->
+  (dfuel ns trl <= 1 + length (nodes_sh5 0 ns ++ lead_sh 0 trl))%nat.
 Proof.
   induction ns as [|c cs IH]; intros Hc.
-  - cbn [dfuel nodes_sh4 flat_map app]. rewrite lead_sh_len_0. lia.
+  - cbn [dfuel MultiWord.nodes_sh5 flat_map app]. rewrite lead_sh_len_0. lia.
   - cbn [forallb] in Hc. apply andb_prop in Hc. destruct Hc as [Hc Hcs]. specialize (IH Hcs).
-    cbn [dfuel nodes_sh4 flat_map]. rewrite <- app_assoc, app_length. unfold node_sh4 at 1. rewrite !app_length, !lead_sh_len_0.
-    pose proof (main_len_pos 0 c Hc). unfold nodes_sh4 in IH. rewrite app_length, lead_sh_len_0 in IH. cbn [indent_sh length]. unfold sh in *. lia.
+    cbn [dfuel MultiWord.nodes_sh5 flat_map]. rewrite <- app_assoc, app_length. unfold MultiWord.node_sh5 at 1. rewrite !app_length, !lead_sh_len_0.
+    pose proof (main_len_pos 0 c Hc). unfold MultiWord.nodes_sh5 in IH. rewrite app_length, lead_sh_len_0 in IH. cbn [indent_sh length]. unfold sh in *. lia.
 Qed.
 
 Definition sep_sh (b : bool) : list sh := if b then [(SEPARATOR, None); (NEWLINE, None)] else [].
 
 Lemma after_meta_read name g meta sep secs trl st3 tsp tsb tE tail :
-  forallb core4_node secs = true -> nums_ok4_l secs -> top_ok secs trl = true ->
-  Forall2 tmatch tsp (sep_sh sep) -> Forall2 tmatch tsb (nodes_sh4 ml idnum qa qi 0 secs ++ lead_sh 0 trl) ->
+  forallb core2_node secs = true -> nums_ok2_l secs -> top_ok secs trl = true ->
+  Forall2 tmatch tsp (sep_sh sep) -> Forall2 tmatch tsb (nodes_sh5 0 secs ++ lead_sh 0 trl) ->
   tk tE = ENVELOPE_END -> tail <> [] -> ptoks st3 = tsp ++ tsb ++ tE :: tail -> pbdepth st3 = 0 ->
-  exists st', doc_after_meta name g meta st3 = POk (mkDoc name g None sep meta secs trl) st' /\ sext4 st3 st'.
+  exists st', doc_after_meta name g meta st3 = POk (mkDoc name g None sep meta secs trl) st' /\
+              sx st3 st' (E tsb (nodes_mk5 0 secs ++ nomk (length (lead_sh 0 trl)))).
 Proof.
   intros Hcc Hnum Htop Htsp Htsb HE Htail Hst Hdep.
   destruct (body_first2 secs trl tsb tE tail Hcc Htsb HE) as (tb & rb & Ebody & Hbf & _).
@@ -1670,31 +1555,32 @@ Proof.
     destruct (dloop_nodes2 trl secs Hcc Hnum Htop (fuel_of (adv (adv st3)) + fuel_of (adv (adv st3)))%nat [] [] (adv (adv st3)) tsb tE tail)
       as (st5 & Hl & Hst5 & W5); [rewrite (fuel_of_toks _ _ H2), app_length; unfold sh in *; lia|exact Htsb|exact H2|exact HE|rewrite !adv_depth; exact Hdep|].
     rewrite Hl. cbn [bind rev app]. eexists. split; [reflexivity|].
-    eapply sext4_trans; [|destruct (is ENVELOPE_END st5); [apply sext4_adv|apply sext4_refl]].
-    eapply sext4_trans; [|exact W5]. sadv.
+    eapply sx_post; [|destruct (is ENVELOPE_END st5); [apply sext_adv|apply sext_refl]].
+    eapply sx_pre; [|exact W5]. sadv.
   - inversion Htsp; subst. cbn [app] in Hst.
     assert (Hs : is SEPARATOR st3 = false) by (rewrite Ebody in Hst; rewrite (is_hd _ _ _ _ Hst); exact Hb2).
     rewrite Hs.
     destruct (dloop_nodes2 trl secs Hcc Hnum Htop (fuel_of st3 + fuel_of st3)%nat [] [] st3 tsb tE tail)
       as (st5 & Hl & Hst5 & W5); [rewrite (fuel_of_toks _ _ Hst), app_length; unfold sh in *; lia|exact Htsb|exact Hst|exact HE|exact Hdep|].
     rewrite Hl. cbn [bind rev app]. eexists. split; [reflexivity|].
-    eapply sext4_trans; [exact W5|destruct (is ENVELOPE_END st5); [apply sext4_adv|apply sext4_refl]].
+    eapply sx_post; [exact W5|destruct (is ENVELOPE_END st5); [apply sext_adv|apply sext_refl]].
 Qed.
 
 (* the warnings only grow by ADVISORY records (5 duplicate_key, 9 pattern_autoquote -- the same set as in TokRound.v: a list of
    scalars opened at bracket depth 0 has depth 1 < nesting_threshold, so 6 deep_nesting cannot occur, and scalar items add no
    record) and the bracket depth is restored *)
-Definition wext4b (st st' : pstate) : Prop := wext4 st st' /\ pbdepth st' = pbdepth st.
+Definition wext2 (st st' : pstate) : Prop := wext st st' /\ pbdepth st' = pbdepth st.
 
 Lemma after_grammar_read g name meta sep secs trl st1 tS tN tsm tsp tsb tE tail :
-  forallb core4_node secs = true -> nums_ok4_l secs -> top_ok secs trl = true ->
-  forallb meta_field_ok4 meta = true -> Forall field_num_ok4 meta -> nodupb (map fst meta) = true ->
+  forallb core2_node secs = true -> nums_ok2_l secs -> top_ok secs trl = true ->
+  forallb meta_field_ok meta = true -> Forall field_num_ok meta -> nodupb (map fst meta) = true ->
   (negb (is_nil meta) || sep || first_key_not_meta2 secs) = true ->
   tmatch tS (ENVELOPE_START, Some (TVText name)) -> tk tN = NEWLINE ->
-  Forall2 tmatch tsm (meta_sh4 ml idnum qa qi meta) -> Forall2 tmatch tsp (sep_sh sep) ->
-  Forall2 tmatch tsb (nodes_sh4 ml idnum qa qi 0 secs ++ lead_sh 0 trl) -> tk tE = ENVELOPE_END -> tail <> [] ->
+  Forall2 tmatch tsm (meta_sh5 meta) -> Forall2 tmatch tsp (sep_sh sep) ->
+  Forall2 tmatch tsb (nodes_sh5 0 secs ++ lead_sh 0 trl) -> tk tE = ENVELOPE_END -> tail <> [] ->
   ptoks st1 = tS :: tN :: tsm ++ tsp ++ tsb ++ tE :: tail -> pbdepth st1 = 0 ->
-  exists st', doc_after_grammar g st1 = POk (mkDoc name g None sep meta secs trl) st' /\ sext4 st1 st'.
+  exists st', doc_after_grammar g st1 = POk (mkDoc name g None sep meta secs trl) st' /\
+              sx st1 st' (E tsm (meta_mk5 meta) ++ E tsb (nodes_mk5 0 secs ++ nomk (length (lead_sh 0 trl)))).
 Proof.
   intros Hcc Hnum Htop Hmok Hmnum Hmnd Hfirst [HSk HSv] HNk Htsm Htsp Htsb HE Htail Hst Hdep. cbn [fst snd] in HSk, HSv.
   destruct (body_first2 secs trl tsb tE tail Hcc Htsb HE) as (tb & rb & Ebody & Hbf & Hnm).
@@ -1714,7 +1600,7 @@ Proof.
   assert (Hn : text_of tS = name) by (unfold text_of; rewrite HSv; reflexivity). rewrite Hn. clear Hn.
   pose proof (adv_toks _ _ _ _ Hst) as H1.
   destruct meta as [|kv0 meta'].
-  - cbn [meta_sh4] in Htsm. inversion Htsm; subst. cbn [app] in H1. rewrite Erest in H1.
+  - cbn [MultiWord.meta_sh5] in Htsm. inversion Htsm; subst. cbn [app] in H1. rewrite Erest in H1.
     rewrite (skip_one_nl [NEWLINE] _ _ _ _ (fuel_of st1) H1 HNk eq_refl); [|destruct (tk tx); try discriminate Hkx; reflexivity|rewrite (fuel_of_toks _ _ Hst); cbn [length]; lia].
     pose proof (adv_toks _ _ _ _ H1) as H2.
     rewrite (is_hd _ _ _ IDENTIFIER H2), (cur_hd _ _ _ H2).
@@ -1722,7 +1608,7 @@ Proof.
     cbn [bind]. rewrite <- Erest in H2.
     destruct (after_meta_read name g [] sep secs trl (adv (adv st1)) tsp tsb tE tail Hcc Hnum Htop Htsp Htsb HE Htail H2) as (st' & Hr & W');
       [rewrite !adv_depth; exact Hdep|].
-    exists st'. split; [exact Hr|]. eapply sext4_trans; [|exact W']. sadv.
+    exists st'. split; [exact Hr|]. eapply sx_eq; [eapply sx_pre; [|exact W']; sadv|reflexivity].
   - set (meta := kv0 :: meta') in *.
     assert (Hne : meta <> []) by discriminate.
     rewrite (meta_sh_fields meta Hne) in Htsm. cbn [app] in Htsm.
@@ -1739,24 +1625,24 @@ Proof.
     rewrite Hpm. cbn [bind].
     rewrite Erest in Hps'. rewrite (skip_stop _ _ _ _ _ Hps'); [|destruct (tk tx); try discriminate Hkx; reflexivity].
     rewrite <- Erest in Hps'.
-    assert (W2 : sext4 st1 s') by (eapply sext4_trans; [|exact Ws']; sadv).
+    assert (W2 : sx st1 s' (E (tM :: tsm') (meta_mk5 meta))) by (eapply sx_pre; [|exact Ws']; sadv).
     destruct (after_meta_read name g meta sep secs trl s' tsp tsb tE tail Hcc Hnum Htop Htsp Htsb HE Htail Hps') as (st' & Hr & W');
-      [exact (sext4_depth0 _ _ W2 Hdep)|].
-    exists st'. split; [exact Hr|]. eapply sext4_trans; [exact W2|exact W'].
+      [exact (sx_depth0 _ _ _ W2 Hdep)|].
+    exists st'. split; [exact Hr|]. eapply sx_trans; [exact W2|exact W'].
 Qed.
 
-Theorem parse_core4_doc d :
-  core4_doc d = true -> nums_ok4_l (dsections d) -> Forall field_num_ok4 (dmeta d) ->
+Theorem parse_core5_doc d :
+  core2_doc d = true -> nums_ok2_l (dsections d) -> Forall field_num_ok (dmeta d) ->
   forall st0 ts tail, tail <> [] -> pbdepth st0 = 0 ->
-    Forall2 tmatch ts (doc4_sh ml idnum qa qi d) -> ptoks st0 = ts ++ tail ->
-    exists st', parse_document numcanon holo_ok strict sp alpha st0 = POk d st' /\ wext4b st0 st'.
+    Forall2 tmatch ts (doc5_sh d) -> ptoks st0 = ts ++ tail ->
+    exists st', parse_document numcanon holo_ok strict sp alpha st0 = POk d st' /\ sx st0 st' (E ts (doc5_mk d)).
 Proof.
-  destruct d as [name gr fr sep meta secs trl]. unfold core4_doc, core4_doc. cbn [dfront dmeta dtrailing dsections dsep].
+  destruct d as [name gr fr sep meta secs trl]. unfold core2_doc, core2_doc. cbn [dfront dmeta dtrailing dsections dsep].
   destruct fr; [discriminate|].
   intros Hcore Hnum Hmnum st0 ts tail Htail Hdep Hts Hst0.
   apply andb_prop in Hcore. destruct Hcore as [Hcore Hfirst]. apply andb_prop in Hcore. destruct Hcore as [Hcore Hmnd].
   apply andb_prop in Hcore. destruct Hcore as [Hcore Hmok]. apply andb_prop in Hcore. destruct Hcore as [Hcc Htop].
-  unfold doc4_sh in Hts. cbn [dgrammar dname dsep dsections dmeta dtrailing] in Hts.
+  unfold MultiWord.doc5_sh in Hts. cbn [dgrammar dname dsep dsections dmeta dtrailing] in Hts.
   apply Forall2_app_inv_r in Hts. destruct Hts as (tsg & ts' & Htsg & Hts & ->).
   change ([(ENVELOPE_START, Some (TVText name)); (NEWLINE, None)] ++ ?x) with
          ((ENVELOPE_START, Some (TVText name)) :: (NEWLINE, None) :: x) in Hts.
@@ -1767,12 +1653,23 @@ Proof.
   apply Forall2_app_inv_r in Hts4. destruct Hts4 as (tsb & tse & Htsb & Htse & ->).
   inversion Htse as [|tE ? ? ? [HEk _] Hnil]; subst. inversion Hnil; subst. cbn [fst] in HEk.
   assert (Hmain : forall st1 g, ptoks st1 = tS :: tN :: tsm ++ tsp ++ tsb ++ tE :: tail -> pbdepth st1 = 0 ->
-            exists st', doc_after_grammar g st1 = POk (mkDoc name g None sep meta secs trl) st' /\ sext4 st1 st').
+            exists st', doc_after_grammar g st1 = POk (mkDoc name g None sep meta secs trl) st' /\
+                        sx st1 st' (E tsm (meta_mk5 meta) ++ E tsb (nodes_mk5 0 secs ++ nomk (length (lead_sh 0 trl))))).
   { intros st1 g Hst1 Hd1.
     exact (after_grammar_read g name meta sep secs trl st1 tS tN tsm tsp tsb tE tail Hcc Hnum Htop Hmok Hmnum Hmnd Hfirst HS HNk Htsm Htsp Htsb HEk Htail Hst1 Hd1). }
   assert (Hst0' : ptoks st0 = tsg ++ tS :: tN :: tsm ++ tsp ++ tsb ++ tE :: tail).
   { rewrite Hst0. rewrite <- !app_assoc. cbn [app]. rewrite <- !app_assoc. reflexivity. }
   clear Hst0. rename Hst0' into Hst0.
+  assert (HEq : forall tsg0 ng, length tsg0 = ng ->
+            E tsm (meta_mk5 meta) ++ E tsb (nodes_mk5 0 secs ++ nomk (length (lead_sh 0 trl))) =
+            E (tsg0 ++ tS :: tN :: tsm ++ tsp ++ tsb ++ [tE])
+              (nomk ng ++ nomk 2 ++ meta_mk5 meta ++ nomk (if sep then 2 else 0)%nat ++ nodes_mk5 0 secs ++ nomk (length (lead_sh 0 trl)) ++ nomk 1)).
+  { intros tsg0 ng Hg0. symmetry. rewrite (E_skip tsg0 _ ng _ Hg0). change (nomk 2) with [@None (list str); None]. cbn [app E].
+    rewrite E_app by (rewrite meta_mk5_len; exact (F2_length _ _ _ Htsm)). f_equal.
+    rewrite E_skip by (rewrite (F2_length _ _ _ Htsp); destruct sep; reflexivity).
+    rewrite (app_assoc (nodes_mk5 0 secs)). rewrite E_app; [rewrite E_nomk, app_nil_r; reflexivity|].
+    rewrite (F2_length _ _ _ Htsb), !app_length, nomk_len. f_equal.
+    symmetry. apply (nodes_mk5_len ml idnum qa5 qi). apply Forall_forall. intros n _. apply main_mk5_len. }
   rewrite parse_document_eq. cbv zeta.
   destruct HS as [HSk HSv]. cbn [fst snd] in HSk, HSv.
   destruct gr as [g|].
@@ -1786,12 +1683,55 @@ Proof.
       [|rewrite HSk; reflexivity|rewrite (fuel_of_toks _ _ Hst0); cbn [length]; lia].
     pose proof (adv_toks _ _ _ _ H1) as H2.
     destruct (Hmain _ (Some g) H2) as (st' & Hr & W'); [rewrite !adv_depth; exact Hdep|].
-    exists st'. split; [exact Hr|]. eapply sext4_trans; [|exact W']. sadv.
+    exists st'. split; [exact Hr|]. eapply sx_eq; [eapply sx_pre; [|exact W']; sadv|exact (HEq [tG; tGn] 2%nat eq_refl)].
   - inversion Htsg; subst. cbn [app] in Hst0.
     rewrite (skip_stop _ _ _ _ _ Hst0); [|rewrite HSk; reflexivity].
     is_step Hst0 HSk.
-    exact (Hmain _ None Hst0 Hdep).
+    destruct (Hmain _ None Hst0 Hdep) as (st' & Hr & W'). exists st'. split; [exact Hr|]. eapply sx_eq; [exact W'|exact (HEq [] 0%nat eq_refl)].
 Qed.
 
 
-End Core4.
+End Core5.
+
+(* ---- corollaries ------------------------------------------------------------------------------------------------------------------------ *)
+(* every expected record is a multi_word_coalesce record of the plain-identifier branch whose result is the join of its words *)
+Lemma E_records ts ms : Forall (fun w => wsub w = 1 /\ wb w = [] /\ wa w = join_sp (wparts w) /\ wnums w = []) (E ts ms).
+Proof.
+  revert ms. induction ts as [|t tr IH]; intros [|m mr]; try constructor. cbn [E]. destruct m as [ws|]; cbn [app]; [constructor|]; try apply IH.
+  repeat split.
+Qed.
+(* one record per marked token *)
+Lemma E_count ts ms : length ts = length ms -> length (E ts ms) = length (filter (fun m : mark => match m with Some _ => true | None => false end) ms).
+Proof.
+  revert ms. induction ts as [|t tr IH]; intros [|m mr] H; try discriminate H; [reflexivity|]. cbn [E filter].
+  rewrite app_length, IH by (cbn [length] in H; lia). destruct m; reflexivity.
+Qed.
+
+Section Converge5.
+Variable numcanon : str -> option (bool * str).
+Variable holo_ok : str -> bool.
+Variable strict : bool.
+Variable sp alpha : N -> bool.
+Variable ml : list value -> bool.
+Variable idnum : str -> bool.
+Variable qi : str -> strk.
+Hypothesis qi_ok : forall s, qi s = QIdent -> has_annotation s = false.
+Notation pdoc := (parse_document numcanon holo_ok strict sp alpha).
+
+(* two spellings of one document (same layout otherwise) are read as the same document; each token list gets exactly its own receipts *)
+Theorem spellings_converge d qa qm qa' qm' :
+  (forall k s, spell_ok s (qa k s) = true) -> (forall s, spell_ok s (qm s) = true) ->
+  (forall k s, spell_ok s (qa' k s) = true) -> (forall s, spell_ok s (qm' s) = true) ->
+  core2_doc d = true -> nums_ok2_l numcanon idnum (dsections d) -> Forall (field_num_ok numcanon) (dmeta d) ->
+  forall st1 ts1 tail1 st2 ts2 tail2,
+    tail1 <> [] -> pbdepth st1 = 0 -> Forall2 tmatch ts1 (doc5_sh ml idnum qa qm qi d) -> ptoks st1 = ts1 ++ tail1 ->
+    tail2 <> [] -> pbdepth st2 = 0 -> Forall2 tmatch ts2 (doc5_sh ml idnum qa' qm' qi d) -> ptoks st2 = ts2 ++ tail2 ->
+    exists s1 s2, pdoc st1 = POk d s1 /\ pdoc st2 = POk d s2 /\
+                  sx st1 s1 (E ts1 (doc5_mk ml qa qm qi d)) /\ sx st2 s2 (E ts2 (doc5_mk ml qa' qm' qi d)).
+Proof.
+  intros Ha Hm Ha' Hm' Hc Hn Hf st1 ts1 tail1 st2 ts2 tail2 Ht1 Hd1 Hs1 Hp1 Ht2 Hd2 Hs2 Hp2.
+  destruct (parse_core5_doc numcanon holo_ok strict sp alpha ml idnum qa qm qi Ha Hm qi_ok d Hc Hn Hf st1 ts1 tail1 Ht1 Hd1 Hs1 Hp1) as (s1 & E1 & W1).
+  destruct (parse_core5_doc numcanon holo_ok strict sp alpha ml idnum qa' qm' qi Ha' Hm' qi_ok d Hc Hn Hf st2 ts2 tail2 Ht2 Hd2 Hs2 Hp2) as (s2 & E2 & W2).
+  exists s1, s2. split; [exact E1|]. split; [exact E2|]. split; assumption.
+Qed.
+End Converge5.
